@@ -1,785 +1,3 @@
-// GENERATED by harness/gen/zoo.py - build artefact, do not edit
-pub const GEN_HASH: &str = "7798312714fdea2f";
-#[derive(SystemData)] pub struct Z4_0<'a> { f0: (), f1: Option<Read<'a, N0, PanicHandler>>, f2: PhantomData<&'a u8>, }
-shredh::zoo_case!(c4, 4, 'a, Z4_0<'a>);
-#[derive(SystemData)] pub struct Z12_0<'a> { f0: (Write<'a, D3, PanicHandler>, ), f1: Write<'a, D2, Hc<D3>>, }
-shredh::zoo_case!(c12, 12, 'a, Z12_0<'a>);
-shredh::zoo_case!(c20, 20, 'a, Option<Read<'a, N3>>);
-shredh::zoo_case!(c28, 28, 'a, (Read<'a, D0, Hc<D3>>, Option<WriteExpect<'a, D0>>, ));
-shredh::zoo_case!(c36, 36, 'a, (((), ), ));
-#[derive(SystemData)] pub struct Z44_0<'a, U0>(U0, Option<Read<'a, N1>>) where U0: SystemData<'a>;
-shredh::zoo_case!(c44, 44, 'a, Z44_0<'a, ReadExpect<'a, N1>>);
-#[derive(SystemData)] pub struct Z52_0<'a>(PhantomData<&'a u8>);
-shredh::zoo_case!(c52, 52, 'a, (Z52_0<'a>, ));
-#[derive(SystemData)] pub struct Z60_0<'a, U0: SystemData<'a>> { f0: WriteExpect<'a, N0>, f1: U0, }
-shredh::zoo_case!(c60, 60, 'a, Z60_0<'a, ReadExpect<'a, N0>>);
-#[derive(SystemData)] pub struct Z68_0<'a> { pub f0: (Read<'a, D3, DefaultProvider>, ), }
-shredh::zoo_case!(c68, 68, 'a, Z68_0<'a>);
-#[derive(SystemData)] pub struct Z76_0<'a> { f0: Read<'a, D3, Hc<D2>>, }
-#[derive(SystemData)] pub struct Z76_1<'a, T0> where T0: Debug + Resource + Default { pub f0: Write<'a, T0, DefaultProvider>, }
-shredh::zoo_case!(c76, 76, 'a, (Z76_0<'a>, Z76_1<'a, D3>, ));
-shredh::zoo_case!(c84, 84, 'a, (Write<'a, D0>, ));
-#[derive(SystemData)] pub struct Z92_1<'a>(Read<'a, D3, DefaultProvider>);
-#[derive(SystemData)] pub struct Z92_0<'a>(pub Z92_1<'a>, pub (ReadExpect<'a, D3>, ));
-shredh::zoo_case!(c92, 92, 'a, Z92_0<'a>);
-shredh::zoo_case!(c100, 100, 'a, ((), ));
-shredh::zoo_case!(c108, 108, 'a, ((Read<'a, D0, Hc<D1>>, ), ((), ), ));
-#[derive(SystemData)] pub struct Z116_0<'a> { pub f0: Option<ReadExpect<'a, D2>>, }
-shredh::zoo_case!(c116, 116, 'a, Z116_0<'a>);
-shredh::zoo_case!(c124, 124, 'a, (Write<'a, D1, DefaultProvider>, PhantomData<&'a u8>, Option<ReadExpect<'a, D1>>, ));
-#[derive(SystemData)] pub struct Z132_0<'a, T0> where T0: Debug + Resource + for<'b> Hrtb<'b> { f0: Write<'a, T0, Hc<D1>>, }
-shredh::zoo_case!(c132, 132, 'a, (Z132_0<'a, D3>, Read<'a, D1, Hc<D3>>, ));
-#[derive(SystemData)] pub struct Z140_0<'a>(Read<'a, D3, DefaultProvider>, WriteExpect<'a, D0>, Read<'a, D3>);
-shredh::zoo_case!(c140, 140, 'a, Z140_0<'a>);
-#[derive(SystemData)] pub struct Z148_0<'a, T0: Debug + Resource>((Read<'a, D2, PanicHandler>, ), Write<'a, T0, Hc<D2>>);
-shredh::zoo_case!(c148, 148, 'a, Z148_0<'a, D0>);
-#[derive(SystemData)] pub struct Z156_0<'a> { f0: Read<'a, N2, PanicHandler>, f1: Read<'a, N2, PanicHandler>, f2: WriteExpect<'a, D0>, }
-shredh::zoo_case!(c156, 156, 'a, Z156_0<'a>);
-#[derive(SystemData)] pub struct Z164_1<'a, T0: Resource + ZRes> { f0: Write<'a, T0, Hc<D2>>, }
-#[derive(SystemData)] pub struct Z164_0<'a> { pub f0: (), pub f1: Z164_1<'a, D1>, }
-shredh::zoo_case!(c164, 164, 'a, Z164_0<'a>);
-shredh::zoo_case!(c172, 172, 'a, Read<'a, D3, DefaultProvider>);
-shredh::zoo_case!(c180, 180, 'a, (Read<'a, D1, PanicHandler>, Option<WriteExpect<'a, D1>>, ));
-#[derive(SystemData)] pub struct Z188_0<'a, T0: Debug + Resource + for<'b> Hrtb<'b>>(Option<Write<'a, T0, PanicHandler>>);
-shredh::zoo_case!(c188, 188, 'a, (Z188_0<'a, D1>, ));
-#[derive(SystemData)] pub struct Z196_0<'a, 'x, T0>(Option<Write<'a, T0, PanicHandler>>, PhantomData<&'x i64>) where T0: Resource;
-shredh::zoo_case!(c196, 196, 'a, Z196_0<'a, 'static, D2>);
-#[derive(SystemData)] pub struct Z204_0<'a>((Read<'a, D2, Hc<D0>>, ));
-shredh::zoo_case!(c204, 204, 'a, Z204_0<'a>);
-#[derive(SystemData)] pub struct Z212_0<'a> { pub f0: Option<ReadExpect<'a, D0>>, pub f1: Write<'a, D0, Hc<D2>>, }
-shredh::zoo_case!(c212, 212, 'a, Z212_0<'a>);
-#[derive(SystemData)] pub struct Z220_0<'a> { pub f0: (Read<'a, D3, DefaultProvider>, ), }
-shredh::zoo_case!(c220, 220, 'a, Z220_0<'a>);
-#[derive(SystemData)] pub struct Z228_0<'a, T0: Resource + ZRes> { f0: Read<'a, T0, Hc<D0>>, }
-shredh::zoo_case!(c228, 228, 'a, (((), ), Z228_0<'a, D1>, ));
-shredh::zoo_case!(c236, 236, 'a, ((), ));
-#[derive(SystemData)] pub struct Z244_1<'a> { f0: ReadExpect<'a, D2>, }
-#[derive(SystemData)] pub struct Z244_0<'a>(pub Z244_1<'a>, pub (Write<'a, D2, DefaultProvider>, ));
-shredh::zoo_case!(c244, 244, 'a, Z244_0<'a>);
-#[derive(SystemData)] pub struct Z252_0<'a, T0>(pub WriteExpect<'a, T0>) where T0: Resource;
-shredh::zoo_case!(c252, 252, 'a, Z252_0<'a, D2>);
-#[derive(SystemData)] pub struct Z260_0<'a> { f0: (Write<'a, D2, Hc<D0>>, ), f1: (Option<Write<'a, D0, PanicHandler>>, ), }
-shredh::zoo_case!(c260, 260, 'a, Z260_0<'a>);
-shredh::zoo_case!(c268, 268, 'a, (Read<'a, D0, Hc<D3>>, ));
-shredh::zoo_case!(c276, 276, 'a, (Write<'a, N2, PanicHandler>, Option<Write<'a, N0>>, Option<Write<'a, N2, PanicHandler>>, ));
-#[derive(SystemData)] pub struct Z284_0<'a>(Write<'a, D3, Hc<D0>>);
-shredh::zoo_case!(c284, 284, 'a, (Write<'a, D3, DefaultProvider>, Z284_0<'a>, ));
-#[derive(SystemData)] pub struct Z292_0<'a>(Option<Write<'a, D2>>, Write<'a, N0, PanicHandler>, Option<ReadExpect<'a, D2>>);
-shredh::zoo_case!(c292, 292, 'a, Z292_0<'a>);
-#[derive(SystemData)] pub struct Z300_1<'a> { f0: Write<'a, D0, Hc<D3>>, }
-#[derive(SystemData)] pub struct Z300_0<'a>(pub Z300_1<'a>, pub Read<'a, D3, DefaultProvider>);
-shredh::zoo_case!(c300, 300, 'a, Z300_0<'a>);
-#[derive(SystemData)] pub struct Z308_0<'a> { f0: PhantomData<D0>, f1: Option<Read<'a, D3, PanicHandler>>, f2: Option<ReadExpect<'a, N2>>, }
-shredh::zoo_case!(c308, 308, 'a, Z308_0<'a>);
-#[derive(SystemData)] pub struct Z316_0<'a> { f0: Option<WriteExpect<'a, N0>>, }
-shredh::zoo_case!(c316, 316, 'a, (WriteExpect<'a, N0>, Z316_0<'a>, ));
-shredh::zoo_case!(c324, 324, 'a, WriteExpect<'a, N1>);
-shredh::zoo_case!(c332, 332, 'a, (Write<'a, D3, DefaultProvider>, Option<Write<'a, D3>>, ));
-shredh::zoo_case!(c340, 340, 'a, (((), ), ));
-#[derive(SystemData)] pub struct Z348_0<'a>(Option<Read<'a, N2>>, Option<Read<'a, N1, PanicHandler>>);
-shredh::zoo_case!(c348, 348, 'a, Z348_0<'a>);
-#[derive(SystemData)] pub struct Z356_0<'a>((Read<'a, D1, PanicHandler>, ));
-shredh::zoo_case!(c356, 356, 'a, Z356_0<'a>);
-#[derive(SystemData)] pub struct Z364_0<'a, T0: Resource> { pub f0: Option<WriteExpect<'a, T0>>, pub f1: WriteExpect<'a, N2>, }
-shredh::zoo_case!(c364, 364, 'a, Z364_0<'a, N2>);
-shredh::zoo_case!(c372, 372, 'a, ((Write<'a, D1, Hc<D3>>, ), ));
-#[derive(SystemData)] pub struct Z380_0<'a> { pub f0: Read<'a, D2>, }
-shredh::zoo_case!(c380, 380, 'a, (Z380_0<'a>, (WriteExpect<'a, D2>, ), ));
-shredh::zoo_case!(c388, 388, 'a, (Read<'a, D3, Hc<D1>>, ));
-#[derive(SystemData)] pub struct Z396_0<'a>(pub (Read<'a, N1, PanicHandler>, ), pub (Read<'a, N1, PanicHandler>, ));
-shredh::zoo_case!(c396, 396, 'a, Z396_0<'a>);
-#[derive(SystemData)] pub struct Z404_0<'a>(pub Read<'a, D3, DefaultProvider>);
-shredh::zoo_case!(c404, 404, 'a, Z404_0<'a>);
-#[derive(SystemData)] pub struct Z412_1<'a, T0> where T0: Resource + ZRes { pub f0: Option<Write<'a, T0>>, }
-#[derive(SystemData)] pub struct Z412_0<'a, U0> where U0: SystemData<'a> { pub f0: Z412_1<'a, N3>, pub f1: U0, }
-shredh::zoo_case!(c412, 412, 'a, Z412_0<'a, (Option<Write<'a, N3, PanicHandler>>, )>);
-#[derive(SystemData)] pub struct Z420_0<'a> { f0: WriteExpect<'a, N3>, }
-shredh::zoo_case!(c420, 420, 'a, Z420_0<'a>);
-shredh::zoo_case!(c428, 428, 'a, (Write<'a, D0, DefaultProvider>, (), ReadExpect<'a, N2>, ));
-#[derive(SystemData)] pub struct Z436_0<'a> { pub f0: Write<'a, D0, Hc<D2>>, }
-shredh::zoo_case!(c436, 436, 'a, (Write<'a, D2>, Z436_0<'a>, ));
-#[derive(SystemData)] pub struct Z444_0<'a>(pub Read<'a, D2>, pub Write<'a, D2, PanicHandler>, pub Option<Write<'a, N3>>);
-shredh::zoo_case!(c444, 444, 'a, Z444_0<'a>);
-#[derive(SystemData)] pub struct Z452_1<'a>(pub Read<'a, D2, Hc<D1>>);
-#[derive(SystemData)] pub struct Z452_0<'a>(pub Z452_1<'a>, pub Option<Read<'a, D2, PanicHandler>>);
-shredh::zoo_case!(c452, 452, 'a, Z452_0<'a>);
-#[derive(SystemData)] pub struct Z460_0<'a, T0, T1> where T0: Debug + Resource, T1: Resource + ZRes { f0: Read<'a, T0>, f1: (), f2: Write<'a, T1, DefaultProvider>, }
-shredh::zoo_case!(c460, 460, 'a, Z460_0<'a, D1, D2>);
-#[derive(SystemData)] pub struct Z468_1<'a>(pub Write<'a, D3, Hc<D2>>);
-#[derive(SystemData)] pub struct Z468_0<'a> { f0: (), f1: Z468_1<'a>, }
-shredh::zoo_case!(c468, 468, 'a, Z468_0<'a>);
-shredh::zoo_case!(c476, 476, 'a, ReadExpect<'a, N2>);
-shredh::zoo_case!(c484, 484, 'a, (Option<Read<'a, N2>>, Option<WriteExpect<'a, N2>>, ));
-#[derive(SystemData)] pub struct Z492_0<'a> { pub f0: Write<'a, D0>, }
-shredh::zoo_case!(c492, 492, 'a, (Z492_0<'a>, ));
-#[derive(SystemData)] pub struct Z500_0<'a>(pub Option<Write<'a, N3, PanicHandler>>, pub Option<WriteExpect<'a, D2>>);
-shredh::zoo_case!(c500, 500, 'a, Z500_0<'a>);
-#[derive(SystemData)] pub struct Z508_0<'a>((Read<'a, D3, Hc<D0>>, ));
-shredh::zoo_case!(c508, 508, 'a, Z508_0<'a>);
-#[derive(SystemData)] pub struct Z516_0<'a> { pub f0: Option<Read<'a, D0, PanicHandler>>, pub f1: WriteExpect<'a, D2>, }
-shredh::zoo_case!(c516, 516, 'a, Z516_0<'a>);
-#[derive(SystemData)] pub struct Z524_1<'a> { f0: Write<'a, D1, Hc<D0>>, }
-#[derive(SystemData)] pub struct Z524_0<'a> { f0: Z524_1<'a>, }
-shredh::zoo_case!(c524, 524, 'a, Z524_0<'a>);
-#[derive(SystemData)] pub struct Z532_0<'a> { pub f0: Read<'a, D2, Hc<D1>>, }
-#[derive(SystemData)] pub struct Z532_1<'a> { pub f0: Option<ReadExpect<'a, D2>>, }
-shredh::zoo_case!(c532, 532, 'a, (Z532_0<'a>, Z532_1<'a>, ));
-shredh::zoo_case!(c540, 540, 'a, (Option<Write<'a, N3>>, ));
-#[derive(SystemData)] pub struct Z548_0<'a>((Write<'a, D0, Hc<D3>>, ), (Read<'a, D3, DefaultProvider>, ));
-shredh::zoo_case!(c548, 548, 'a, Z548_0<'a>);
-#[derive(SystemData)] pub struct Z556_0<'a>(pub Option<Write<'a, N1>>);
-shredh::zoo_case!(c556, 556, 'a, Z556_0<'a>);
-#[derive(SystemData)] pub struct Z564_1<'a> { f0: Read<'a, D0>, }
-#[derive(SystemData)] pub struct Z564_2<'a, T0> where T0: Resource + ZRes { pub f0: Write<'a, T0, PanicHandler>, }
-#[derive(SystemData)] pub struct Z564_0<'a, U0> where U0: SystemData<'a> { pub f0: U0, pub f1: Z564_2<'a, D0>, }
-shredh::zoo_case!(c564, 564, 'a, Z564_0<'a, Z564_1<'a>>);
-#[derive(SystemData)] pub struct Z572_0<'a> { pub f0: WriteExpect<'a, N2>, }
-shredh::zoo_case!(c572, 572, 'a, Z572_0<'a>);
-shredh::zoo_case!(c580, 580, 'a, (Write<'a, D2, PanicHandler>, Write<'a, D2, DefaultProvider>, Read<'a, N1, PanicHandler>, ));
-#[derive(SystemData)] pub struct Z588_0<'a> { pub f0: WriteExpect<'a, D2>, }
-shredh::zoo_case!(c588, 588, 'a, (Write<'a, D0, Hc<D2>>, Z588_0<'a>, ));
-#[derive(SystemData)] pub struct Z596_0<'a, T0: Resource + ZRes, T1: Debug + Resource + for<'b> Hrtb<'b>>(pub Read<'a, T0, DefaultProvider>, pub (), pub Write<'a, T1, PanicHandler>);
-shredh::zoo_case!(c596, 596, 'a, Z596_0<'a, D0, N2>);
-#[derive(SystemData)] pub struct Z604_1<'a> { pub f0: Read<'a, D3, Hc<D0>>, }
-#[derive(SystemData)] pub struct Z604_0<'a>(Read<'a, D3, Hc<D0>>, Z604_1<'a>);
-shredh::zoo_case!(c604, 604, 'a, Z604_0<'a>);
-#[derive(SystemData)] pub struct Z612_0<'a, U0, U1>(U0, U1, Option<ReadExpect<'a, N1>>) where U0: SystemData<'a>, U1: SystemData<'a>;
-shredh::zoo_case!(c612, 612, 'a, Z612_0<'a, Read<'a, D3>, ReadExpect<'a, D3>>);
-#[derive(SystemData)] pub struct Z620_0<'a>((Read<'a, D2, Hc<D1>>, ), (Write<'a, D2, Hc<D1>>, ));
-shredh::zoo_case!(c620, 620, 'a, Z620_0<'a>);
-shredh::zoo_case!(c628, 628, 'a, (ReadExpect<'a, D3>, Option<Read<'a, D2, PanicHandler>>, ));
-shredh::zoo_case!(c636, 636, 'a, ((Read<'a, N3, PanicHandler>, ), ));
-shredh::zoo_case!(c644, 644, 'a, (Write<'a, D1, PanicHandler>, Write<'a, D3>, Read<'a, D3, PanicHandler>, ));
-#[derive(SystemData)] pub struct Z652_0<'a, T0> where T0: Resource + Default { pub f0: Read<'a, T0, DefaultProvider>, }
-shredh::zoo_case!(c652, 652, 'a, (Z652_0<'a, D2>, Read<'a, D2, Hc<D1>>, ));
-#[derive(SystemData)] pub struct Z660_1<'a>(Option<Read<'a, N0, PanicHandler>>);
-#[derive(SystemData)] pub struct Z660_0<'a> { pub f0: Z660_1<'a>, }
-shredh::zoo_case!(c660, 660, 'a, Z660_0<'a>);
-shredh::zoo_case!(c668, 668, 'a, ((Option<WriteExpect<'a, N3>>, ), ((), ), ));
-#[derive(SystemData)] pub struct Z676_0<'a> { f0: (Write<'a, D0, Hc<D1>>, ), f1: (Write<'a, D1, DefaultProvider>, ), }
-shredh::zoo_case!(c676, 676, 'a, Z676_0<'a>);
-#[derive(SystemData)] pub struct Z684_0<'a, U0>(pub U0, pub Read<'a, D3>, pub ()) where U0: SystemData<'a>;
-shredh::zoo_case!(c684, 684, 'a, Z684_0<'a, Option<Read<'a, D3>>>);
-#[derive(SystemData)] pub struct Z692_0<'a> { f0: Read<'a, D2>, }
-shredh::zoo_case!(c692, 692, 'a, (Z692_0<'a>, (Read<'a, D2, DefaultProvider>, ), ));
-#[derive(SystemData)] pub struct Z700_1<'a> { pub f0: Read<'a, D0, DefaultProvider>, }
-#[derive(SystemData)] pub struct Z700_0<'a> { pub f0: ((), ), pub f1: Z700_1<'a>, }
-shredh::zoo_case!(c700, 700, 'a, Z700_0<'a>);
-#[derive(SystemData)] pub struct Z708_0<'a>(pub Write<'a, D2, PanicHandler>, pub Option<Read<'a, D3>>, pub Option<Write<'a, D2>>);
-shredh::zoo_case!(c708, 708, 'a, Z708_0<'a>);
-#[derive(SystemData)] pub struct Z716_0<'a> { f0: WriteExpect<'a, D3>, }
-#[derive(SystemData)] pub struct Z716_1<'a, T0: Debug + Resource>(pub Write<'a, T0, Hc<D2>>);
-shredh::zoo_case!(c716, 716, 'a, (Z716_0<'a>, Z716_1<'a, D3>, ));
-#[derive(SystemData)] pub struct Z724_0<'a> { pub f0: ((), ), pub f1: (Write<'a, D0, Hc<D2>>, ), }
-shredh::zoo_case!(c724, 724, 'a, Z724_0<'a>);
-#[derive(SystemData)] pub struct Z732_0<'a, T0: Debug + Resource, U0>(pub Option<WriteExpect<'a, D0>>, pub WriteExpect<'a, T0>, pub U0) where U0: SystemData<'a>;
-shredh::zoo_case!(c732, 732, 'a, Z732_0<'a, N2, WriteExpect<'a, N2>>);
-shredh::zoo_case!(c740, 740, 'a, (((), ), ((), ), ));
-#[derive(SystemData)] pub struct Z748_1<'a, T0: Resource + ZRes + Default>(Read<'a, T0>);
-#[derive(SystemData)] pub struct Z748_2<'a> { f0: PhantomData<&'a u8>, }
-#[derive(SystemData)] pub struct Z748_0<'a> { pub f0: Z748_1<'a, D0>, pub f1: Z748_2<'a>, }
-shredh::zoo_case!(c748, 748, 'a, Z748_0<'a>);
-#[derive(SystemData)] pub struct Z756_0<'a, U0, U1>(pub U0, pub Option<ReadExpect<'a, N0>>, pub U1) where U0: SystemData<'a>, U1: SystemData<'a>;
-shredh::zoo_case!(c756, 756, 'a, Z756_0<'a, Option<Read<'a, N1>>, Option<Write<'a, N0>>>);
-shredh::zoo_case!(c764, 764, 'a, ((Write<'a, D1, DefaultProvider>, ), (Write<'a, D1, DefaultProvider>, ), ));
-#[derive(SystemData)] pub struct Z772_0<'a> { f0: (Write<'a, D3, Hc<D2>>, ), f1: (Write<'a, D3, DefaultProvider>, ), }
-shredh::zoo_case!(c772, 772, 'a, Z772_0<'a>);
-shredh::zoo_case!(c780, 780, 'a, (Write<'a, D1, PanicHandler>, Read<'a, D1>, Write<'a, D1, DefaultProvider>, ));
-#[derive(SystemData)] pub struct Z788_0<'a>(pub Option<ReadExpect<'a, D2>>);
-#[derive(SystemData)] pub struct Z788_1<'a>(pub Option<Write<'a, D2>>);
-shredh::zoo_case!(c788, 788, 'a, (Z788_0<'a>, Z788_1<'a>, ));
-#[derive(SystemData)] pub struct Z796_1<'a>(pub Read<'a, D2>);
-#[derive(SystemData)] pub struct Z796_2<'a> { pub f0: Option<ReadExpect<'a, D2>>, }
-#[derive(SystemData)] pub struct Z796_0<'a, U0: SystemData<'a>> { f0: Z796_1<'a>, f1: U0, }
-shredh::zoo_case!(c796, 796, 'a, Z796_0<'a, Z796_2<'a>>);
-#[derive(SystemData)] pub struct Z804_0<'a, T0, T1, T2>(WriteExpect<'a, T0>, Read<'a, T1, PanicHandler>, Write<'a, T2, PanicHandler>) where T0: Resource + ZRes, T1: Resource, T2: Debug + Resource + for<'b> Hrtb<'b>;
-shredh::zoo_case!(c804, 804, 'a, Z804_0<'a, D0, N2, N2>);
-#[derive(SystemData)] pub struct Z812_0<'a, T0: Resource> { pub f0: Read<'a, T0, PanicHandler>, }
-shredh::zoo_case!(c812, 812, 'a, (Z812_0<'a, D1>, (Read<'a, D1>, ), ));
-#[derive(SystemData)] pub struct Z820_1<'a>(pub Write<'a, D2, Hc<D3>>);
-#[derive(SystemData)] pub struct Z820_0<'a> { f0: Z820_1<'a>, f1: (Option<Read<'a, D3>>, ), }
-shredh::zoo_case!(c820, 820, 'a, Z820_0<'a>);
-#[derive(SystemData)] pub struct Z828_0<'a>(pub Option<Read<'a, N2>>, pub Read<'a, D1, DefaultProvider>, pub Write<'a, D1, PanicHandler>);
-shredh::zoo_case!(c828, 828, 'a, Z828_0<'a>);
-#[derive(SystemData)] pub struct Z836_0<'a>(Read<'a, D1>);
-#[derive(SystemData)] pub struct Z836_1<'a> { f0: Write<'a, D1>, }
-shredh::zoo_case!(c836, 836, 'a, (Z836_0<'a>, Z836_1<'a>, ));
-#[derive(SystemData)] pub struct Z844_1<'a>(pub Write<'a, D3, Hc<D2>>);
-#[derive(SystemData)] pub struct Z844_2<'a>(pub Option<ReadExpect<'a, D2>>);
-#[derive(SystemData)] pub struct Z844_0<'a> { pub f0: Z844_1<'a>, pub f1: Z844_2<'a>, }
-shredh::zoo_case!(c844, 844, 'a, Z844_0<'a>);
-#[derive(SystemData)] pub struct Z852_0<'a, U0, U1>(U0, Write<'a, D1, DefaultProvider>, U1) where U0: SystemData<'a>, U1: SystemData<'a>;
-shredh::zoo_case!(c852, 852, 'a, Z852_0<'a, Write<'a, D3>, Write<'a, D1, DefaultProvider>>);
-shredh::zoo_case!(c860, 860, 'a, ((Write<'a, D3, Hc<D1>>, ), (Read<'a, D3, Hc<D1>>, ), ));
-#[derive(SystemData)] pub struct Z868_0<'a> { f0: Option<Read<'a, D3>>, }
-shredh::zoo_case!(c868, 868, 'a, ((Write<'a, D3, PanicHandler>, ), Z868_0<'a>, ));
-#[derive(SystemData)] pub struct Z876_0<'a, T0: Resource + ZRes, T1: Debug + Resource + for<'b> Hrtb<'b>>(pub (), pub Write<'a, T0, PanicHandler>, pub Write<'a, T1, PanicHandler>);
-shredh::zoo_case!(c876, 876, 'a, Z876_0<'a, N1, N1>);
-#[derive(SystemData)] pub struct Z884_0<'a>(Write<'a, D2, Hc<D0>>);
-#[derive(SystemData)] pub struct Z884_1<'a>(Write<'a, D0>);
-shredh::zoo_case!(c884, 884, 'a, (Z884_0<'a>, Z884_1<'a>, ));
-#[derive(SystemData)] pub struct Z892_0<'a> { f0: (WriteExpect<'a, D0>, ), f1: (Write<'a, D0, DefaultProvider>, ), }
-shredh::zoo_case!(c892, 892, 'a, Z892_0<'a>);
-#[derive(SystemData)] pub struct Z900_0<'a>(pub PhantomData<str>, pub ReadExpect<'a, N0>, pub ReadExpect<'a, D3>);
-shredh::zoo_case!(c900, 900, 'a, Z900_0<'a>);
-shredh::zoo_case!(c908, 908, 'a, ((), Option<Read<'a, N1>>, (), ));
-shredh::zoo_case!(c916, 916, 'a, ((), (), (), (), (), (), ));
-shredh::zoo_case!(c924, 924, 'a, (Option<Write<'a, N1, PanicHandler>>, (), (), (), (), (), (), ));
-shredh::zoo_case!(c932, 932, 'a, (PhantomData<&'a u8>, (), (), (), (), (), (), (), ));
-shredh::zoo_case!(c940, 940, 'a, ((), (), (), (), (), (), (), (), (), (), ));
-shredh::zoo_case!(c948, 948, 'a, ((), (), (), (), (), (), (), Option<Read<'a, D1, PanicHandler>>, (), (), ));
-shredh::zoo_case!(c956, 956, 'a, ((), (), (), (), Option<ReadExpect<'a, N2>>, (), (), (), (), (), (), (), (), ));
-shredh::zoo_case!(c964, 964, 'a, ((), (), (), (), (), (), (), (), (), (), (), (), Option<WriteExpect<'a, D1>>, ));
-shredh::zoo_case!(c972, 972, 'a, ((), (), (), (), (), (), ReadExpect<'a, D1>, (), (), (), (), (), (), (), (), ));
-shredh::zoo_case!(c980, 980, 'a, ((), (), (), (), (), (), (), (), (), (), (), (), (), (), Option<WriteExpect<'a, N0>>, ));
-shredh::zoo_case!(c988, 988, 'a, ((), (), (), (), (), (), Read<'a, D2, PanicHandler>, (), (), (), (), (), (), (), (), (), (), (), (), (), (), ));
-shredh::zoo_case!(c996, 996, 'a, ((), (), (), (), (), (), (), (), (), (), (), (), (), (), ReadExpect<'a, D2>, (), (), (), (), (), (), ));
-shredh::zoo_case!(c1004, 1004, 'a, (Write<'a, D3, Hc<D3>>, (), (), (), (), (), (), (), (), (), (), (), (), (), (), (), (), (), (), (), (), (), (), (), (), (), ));
-shredh::zoo_case!(c1012, 1012, 'a, ((), (), (), (), (), (), (), (), WriteExpect<'a, N0>, (), (), (), (), (), (), (), (), (), (), (), (), (), (), (), (), (), ));
-shredh::zoo_case!(c1020, 1020, 'a, ((), (), (), (), (), (), (), (), (), (), (), (), (), (), (), (), Read<'a, D3, DefaultProvider>, (), (), (), (), (), (), (), (), (), ));
-shredh::zoo_case!(c1028, 1028, 'a, ((), (), (), (), (), (), (), (), (), (), (), (), (), (), (), (), (), (), (), (), (), (), (), (), Read<'a, D3>, (), ));
-shredh::zoo_case!(c1036, 1036, 'a, ((), PhantomData<(Write<'a, D1>,)>, (), (), (), (), (), (), (), (), ));
-shredh::zoo_case!(c1044, 1044, 'a, ((), (), (), (), (), (), (), (), (), (), (), (), (), (), (), (), (), (), (), (), Write<'a, D2, DefaultProvider>, ));
-shredh::zoo_case!(c1052, 1052, 'a, ((), (), (), (), (), (), (), (), (), (), PhantomData<str>, (), (), (), (), (), (), (), (), (), (), ));
-shredh::zoo_case!(c1060, 1060, 'a, ((), (), (), (), (), (), (), (), Read<'a, D2>, (), ));
-shredh::zoo_case!(c1068, 1068, 'a, ((), (), WriteExpect<'a, D2>, (), (), (), (), (), ));
-shredh::zoo_case!(c1076, 1076, 'a, ((), (), (), (), (), (), (), (), (), (), (), (), (), (), (), (), (), (), (), (), (), (), (), (), Read<'a, D2, PanicHandler>, (), ));
-shredh::zoo_case!(c1084, 1084, 'a, ((), (), (), (), (), (), (), (), (), (), (), Option<Read<'a, D3, PanicHandler>>, (), ));
-shredh::zoo_case!(c1092, 1092, 'a, ((), (), (), (), (), Read<'a, D0, Hc<D0>>, (), (), (), (), ));
-shredh::zoo_case!(c1100, 1100, 'a, ((), Write<'a, D2, PanicHandler>, (), (), (), ));
-shredh::zoo_case!(c1108, 1108, 'a, ((), (), (), (), (), (), Option<Write<'a, N1, PanicHandler>>, (), (), (), (), (), (), ));
-shredh::zoo_case!(c1116, 1116, 'a, ((), (), (), (), (), (), (), (), (), (), (), (), (), (), (), (), (), (), (), (), Write<'a, D2, Hc<D2>>, ));
-shredh::zoo_case!(c1124, 1124, 'a, ((), (), (), (), (), Read<'a, D2>, (), ));
-shredh::zoo_case!(c1132, 1132, 'a, ((), (), (), (), (), (), (), (), (), Option<WriteExpect<'a, N1>>, ));
-shredh::zoo_case!(c1140, 1140, 'a, ((), (), (), (), (), (), (), (), (), WriteExpect<'a, N1>, (), (), (), (), (), (), (), (), (), (), (), ));
-shredh::zoo_case!(c1148, 1148, 'a, ((), Write<'a, D0, PanicHandler>, (), (), (), (), (), (), (), (), ));
-shredh::zoo_case!(c1156, 1156, 'a, ((), (), Read<'a, D0, Hc<D0>>, (), (), (), (), (), ));
-shredh::zoo_case!(c1164, 1164, 'a, ((), (), (), (), (), (), (), (), (), (), (), Read<'a, D0, Hc<D0>>, (), (), (), ));
-shredh::zoo_case!(c1172, 1172, 'a, ((), (), (), (), (), (), (), Write<'a, D2, Hc<D2>>, ));
-shredh::zoo_case!(c1180, 1180, 'a, ((), (), (), Write<'a, D0>, (), (), (), (), (), (), ));
-shredh::zoo_case!(c1188, 1188, 'a, ((), (), (), PhantomData<u8>, (), (), (), (), (), (), (), (), (), (), (), ));
-shredh::zoo_case!(c1196, 1196, 'a, ((), (), (), (), Option<Read<'a, D2>>, (), (), (), (), (), ));
-shredh::zoo_case!(c1204, 1204, 'a, (Option<Write<'a, D1, PanicHandler>>, (), (), (), (), (), (), (), (), (), (), (), (), (), (), (), (), (), (), (), (), ));
-shredh::zoo_case!(c1212, 1212, 'a, ((), (), (), (), (), (), (), (), (), (), (), (), (), (), (), (), (), (), (), (), (), (), (), (), (), Option<Read<'a, N1, PanicHandler>>, ));
-shredh::zoo_case!(c1220, 1220, 'a, ((), (), (), (), (), (), (), (), WriteExpect<'a, D1>, (), (), (), (), (), (), ));
-shredh::zoo_case!(c1228, 1228, 'a, ((), (), (), (), (), (), (), (), (), (), (), (), (), (), ReadExpect<'a, N2>, (), (), (), (), (), (), (), (), (), (), (), ));
-shredh::zoo_case!(c1236, 1236, 'a, (WriteExpect<'a, D1>, (), (), (), (), (), (), (), (), (), (), (), (), (), (), ));
-shredh::zoo_case!(c1244, 1244, 'a, ((), (), (), (), (), (), (), (), PhantomData<dyn Send>, (), (), (), (), (), (), (), (), (), (), (), (), (), (), (), (), (), ));
-shredh::zoo_case!(c1252, 1252, 'a, ((), (), ReadExpect<'a, D0>, (), (), (), (), (), (), (), (), (), (), (), (), (), (), (), (), (), (), (), (), (), (), (), ));
-shredh::zoo_case!(c1260, 1260, 'a, ((), (), (), (), (), (), (), (), (), (), (), (), ReadExpect<'a, D0>, (), (), (), (), (), (), (), (), (), (), (), (), (), ));
-shredh::zoo_case!(c1268, 1268, 'a, ((), (), (), (), (), (), (), (), (), (), (), ReadExpect<'a, N2>, (), (), (), (), (), (), (), (), (), (), (), (), (), (), ));
-shredh::zoo_case!(c1276, 1276, 'a, (Write<'a, N3, PanicHandler>, (), (), (), (), ));
-shredh::zoo_case!(c1284, 1284, 'a, ((), (), (), (), (), (), (), (), Read<'a, N2, PanicHandler>, (), (), (), (), ));
-shredh::zoo_case!(c1292, 1292, 'a, ((), Write<'a, D1, Hc<D1>>, (), (), (), (), (), (), (), (), (), (), (), (), (), ));
-shredh::zoo_case!(c1300, 1300, 'a, ((), (), (), (), (), (), (), (), (), (), (), (), (), (), Write<'a, N3, PanicHandler>, (), (), (), (), (), (), ));
-shredh::zoo_case!(c1308, 1308, 'a, ((), (), (), Write<'a, D3, DefaultProvider>, (), (), ));
-shredh::zoo_case!(c1316, 1316, 'a, (WriteExpect<'a, N3>, (), (), (), (), (), (), ));
-shredh::zoo_case!(c1324, 1324, 'a, ((), (), (), (), (), (), (), Read<'a, D3, Hc<D3>>, (), (), (), (), (), ));
-shredh::zoo_case!(c1332, 1332, 'a, ((), (), (), (), (), (), (), Option<Write<'a, D2, PanicHandler>>, ));
-shredh::zoo_case!(c1340, 1340, 'a, ((), (), (), (), (), (), (), (), (), (), (), (), Option<Read<'a, N0>>, (), (), ));
-shredh::zoo_case!(c1348, 1348, 'a, ((), (), (), (), (), (), (), (), Write<'a, D2, PanicHandler>, (), (), (), (), (), (), (), (), (), (), (), (), ));
-shredh::zoo_case!(c1356, 1356, 'a, ((), (), (), (), (), (), (), (), (), (), (), (), (), Option<Write<'a, N0, PanicHandler>>, (), ));
-shredh::zoo_case!(c1364, 1364, 'a, ((), (), (), (), (), (), (), (), Write<'a, D0, Hc<D0>>, (), (), (), (), (), (), (), (), (), (), (), (), ));
-shredh::zoo_case!(c1372, 1372, 'a, ((), (), (), (), (), (), (), (), (), (), (), (), (), (), (), (), (), (), (), Read<'a, D2>, (), (), (), (), (), (), ));
-shredh::zoo_case!(c1380, 1380, 'a, ((), (), (), (), (), (), (), (), (), (), (), (), (), (), (), (), (), (), (), (), (), (), (), (), Option<Write<'a, N2, PanicHandler>>, (), ));
-shredh::zoo_case!(c1388, 1388, 'a, ((), (), (), (), (), (), (), (), (), (), (), (), Option<Read<'a, D2, PanicHandler>>, (), (), (), (), (), (), (), (), ));
-shredh::zoo_case!(c1396, 1396, 'a, ((), (), (), (), (), (), (), (), (), (), (), (), (), (), (), Write<'a, D1>, (), (), (), (), (), ));
-shredh::zoo_case!(c1404, 1404, 'a, (Write<'a, D3, Hc<D3>>, ));
-shredh::zoo_case!(c1412, 1412, 'a, (Write<'a, D2, Hc<D0>>, Read<'a, D0, Hc<D1>>, Write<'a, D1, Hc<D2>>, ));
-shredh::zoo_case!(c1420, 1420, 'a, (Read<'a, D1, Hc<D2>>, Write<'a, D2, Hc<D3>>, Read<'a, D3, Hc<D0>>, Write<'a, D0, Hc<D5>>, Read<'a, D5, Hc<D1>>, ));
-shredh::zoo_case!(c1428, 1428, 'a, (Write<'a, D2, Hc<D4>>, Read<'a, D4, Hc<D1>>, Write<'a, D1, Hc<D6>>, Read<'a, D6, Hc<D5>>, Write<'a, D5, Hc<D7>>, Read<'a, D7, Hc<D0>>, Write<'a, D0, Hc<D2>>, ));
-shredh::zoo_case!(c1436, 1436, 'a, (Read<'a, D25, Hc<D24>>, Write<'a, D24, Hc<D16>>, Read<'a, D16, Hc<D9>>, Write<'a, D9, Hc<D17>>, Read<'a, D17, Hc<D8>>, Write<'a, D8, Hc<D5>>, Read<'a, D5, Hc<D15>>, Write<'a, D15, Hc<D19>>, Read<'a, D19, Hc<D25>>, ));
-shredh::zoo_case!(c1444, 1444, 'a, (Read<'a, D3, Hc<D5>>, Write<'a, D5, Hc<D11>>, Read<'a, D11, Hc<D0>>, Write<'a, D0, Hc<D16>>, Read<'a, D16, Hc<D24>>, Write<'a, D24, Hc<D15>>, Read<'a, D15, Hc<D14>>, Write<'a, D14, Hc<D1>>, Read<'a, D1, Hc<D20>>, Write<'a, D20, Hc<D17>>, Read<'a, D17, Hc<D3>>, ));
-shredh::zoo_case!(c1452, 1452, 'a, (Read<'a, D10, Hc<D19>>, Write<'a, D19, Hc<D23>>, Read<'a, D23, Hc<D9>>, Write<'a, D9, Hc<D24>>, Read<'a, D24, Hc<D11>>, Write<'a, D11, Hc<D0>>, Read<'a, D0, Hc<D3>>, Write<'a, D3, Hc<D12>>, Read<'a, D12, Hc<D20>>, Write<'a, D20, Hc<D16>>, Read<'a, D16, Hc<D4>>, Write<'a, D4, Hc<D17>>, Read<'a, D17, Hc<D10>>, ));
-shredh::zoo_case!(c1460, 1460, 'a, (Write<'a, D24, Hc<D21>>, Read<'a, D21, Hc<D2>>, Write<'a, D2, Hc<D10>>, Read<'a, D10, Hc<D1>>, Write<'a, D1, Hc<D20>>, Read<'a, D20, Hc<D3>>, Write<'a, D3, Hc<D12>>, Read<'a, D12, Hc<D14>>, Write<'a, D14, Hc<D6>>, Read<'a, D6, Hc<D17>>, Write<'a, D17, Hc<D19>>, Read<'a, D19, Hc<D0>>, Write<'a, D0, Hc<D13>>, Read<'a, D13, Hc<D5>>, Write<'a, D5, Hc<D24>>, ));
-shredh::zoo_case!(c1468, 1468, 'a, (Write<'a, D21, Hc<D15>>, Read<'a, D15, Hc<D13>>, Write<'a, D13, Hc<D19>>, Read<'a, D19, Hc<D12>>, Write<'a, D12, Hc<D18>>, Read<'a, D18, Hc<D9>>, Write<'a, D9, Hc<D22>>, Read<'a, D22, Hc<D2>>, Write<'a, D2, Hc<D25>>, Read<'a, D25, Hc<D23>>, Write<'a, D23, Hc<D17>>, Read<'a, D17, Hc<D24>>, Write<'a, D24, Hc<D10>>, Read<'a, D10, Hc<D11>>, Write<'a, D11, Hc<D1>>, Read<'a, D1, Hc<D5>>, Write<'a, D5, Hc<D21>>, ));
-shredh::zoo_case!(c1476, 1476, 'a, (Write<'a, D25, Hc<D2>>, Read<'a, D2, Hc<D6>>, Write<'a, D6, Hc<D4>>, Read<'a, D4, Hc<D23>>, Write<'a, D23, Hc<D22>>, Read<'a, D22, Hc<D20>>, Write<'a, D20, Hc<D7>>, Read<'a, D7, Hc<D8>>, Write<'a, D8, Hc<D10>>, Read<'a, D10, Hc<D18>>, Write<'a, D18, Hc<D24>>, Read<'a, D24, Hc<D15>>, Write<'a, D15, Hc<D21>>, Read<'a, D21, Hc<D12>>, Write<'a, D12, Hc<D0>>, Read<'a, D0, Hc<D16>>, Write<'a, D16, Hc<D1>>, Read<'a, D1, Hc<D11>>, Write<'a, D11, Hc<D25>>, ));
-shredh::zoo_case!(c1484, 1484, 'a, (Write<'a, D15, Hc<D12>>, Read<'a, D12, Hc<D23>>, Write<'a, D23, Hc<D10>>, Read<'a, D10, Hc<D4>>, Write<'a, D4, Hc<D17>>, Read<'a, D17, Hc<D21>>, Write<'a, D21, Hc<D5>>, Read<'a, D5, Hc<D20>>, Write<'a, D20, Hc<D7>>, Read<'a, D7, Hc<D14>>, Write<'a, D14, Hc<D11>>, Read<'a, D11, Hc<D1>>, Write<'a, D1, Hc<D0>>, Read<'a, D0, Hc<D16>>, Write<'a, D16, Hc<D9>>, Read<'a, D9, Hc<D2>>, Write<'a, D2, Hc<D8>>, Read<'a, D8, Hc<D3>>, Write<'a, D3, Hc<D6>>, Read<'a, D6, Hc<D22>>, Write<'a, D22, Hc<D15>>, ));
-shredh::zoo_case!(c1492, 1492, 'a, (Read<'a, D15, Hc<D0>>, Write<'a, D0, Hc<D10>>, Read<'a, D10, Hc<D19>>, Write<'a, D19, Hc<D14>>, Read<'a, D14, Hc<D2>>, Write<'a, D2, Hc<D5>>, Read<'a, D5, Hc<D9>>, Write<'a, D9, Hc<D16>>, Read<'a, D16, Hc<D25>>, Write<'a, D25, Hc<D1>>, Read<'a, D1, Hc<D8>>, Write<'a, D8, Hc<D7>>, Read<'a, D7, Hc<D23>>, Write<'a, D23, Hc<D21>>, Read<'a, D21, Hc<D12>>, Write<'a, D12, Hc<D24>>, Read<'a, D24, Hc<D13>>, Write<'a, D13, Hc<D11>>, Read<'a, D11, Hc<D4>>, Write<'a, D4, Hc<D6>>, Read<'a, D6, Hc<D3>>, Write<'a, D3, Hc<D17>>, Read<'a, D17, Hc<D15>>, ));
-shredh::zoo_case!(c1500, 1500, 'a, (Read<'a, D6, Hc<D20>>, Write<'a, D20, Hc<D13>>, Read<'a, D13, Hc<D4>>, Write<'a, D4, Hc<D15>>, Read<'a, D15, Hc<D22>>, Write<'a, D22, Hc<D25>>, Read<'a, D25, Hc<D24>>, Write<'a, D24, Hc<D14>>, Read<'a, D14, Hc<D16>>, Write<'a, D16, Hc<D5>>, Read<'a, D5, Hc<D8>>, Write<'a, D8, Hc<D3>>, Read<'a, D3, Hc<D11>>, Write<'a, D11, Hc<D12>>, Read<'a, D12, Hc<D7>>, Write<'a, D7, Hc<D10>>, Read<'a, D10, Hc<D0>>, Write<'a, D0, Hc<D19>>, Read<'a, D19, Hc<D1>>, Write<'a, D1, Hc<D23>>, Read<'a, D23, Hc<D17>>, Write<'a, D17, Hc<D2>>, Read<'a, D2, Hc<D9>>, Write<'a, D9, Hc<D21>>, Read<'a, D21, Hc<D6>>, ));
-#[derive(SystemData)] pub struct Z1508_0<'a, U0: SystemData<'a>, T0: Debug + Resource, T1: Resource> { pub f0: U0, pub f1: Write<'a, T0>, pub f2: Read<'a, T1>, }
-shredh::zoo_case!(c1508, 1508, 'a, Z1508_0<'a, (Read<'a, D4>, Write<'a, D3, DefaultProvider>, ), D2, D1>);
-#[derive(SystemData)] pub struct Z1516_1<'a>(pub Option<Write<'a, N3, PanicHandler>>, pub (Read<'a, D2>, ));
-#[derive(SystemData)] pub struct Z1516_0<'a, U0: SystemData<'a>, U1: SystemData<'a>> { pub f0: U0, pub f1: U1, pub f2: Read<'a, D1, DefaultProvider>, }
-shredh::zoo_case!(c1516, 1516, 'a, Z1516_0<'a, Read<'a, D1, DefaultProvider>, Z1516_1<'a>>);
-#[derive(SystemData)] pub struct Z1524_0<'a, U0: SystemData<'a>>(U0, Write<'a, D3>, Read<'a, D0, DefaultProvider>);
-shredh::zoo_case!(c1524, 1524, 'a, Z1524_0<'a, Option<Read<'a, N1, PanicHandler>>>);
-#[derive(SystemData)] pub struct Z1532_0<'a, U0: SystemData<'a>, U1: SystemData<'a>>(Read<'a, D3, DefaultProvider>, U0, U1);
-shredh::zoo_case!(c1532, 1532, 'a, Z1532_0<'a, (Read<'a, D0, DefaultProvider>, Write<'a, D2>, ), Read<'a, D3, DefaultProvider>>);
-#[derive(SystemData)] pub struct Z1540_0<'a, U0, U1>(pub U0, pub Write<'a, D4>, pub U1) where U0: SystemData<'a>, U1: SystemData<'a>;
-shredh::zoo_case!(c1540, 1540, 'a, Z1540_0<'a, Read<'a, D1>, (Option<Write<'a, D0, PanicHandler>>, (Read<'a, D3>, ), )>);
-#[derive(SystemData)] pub struct Z1548_0<'a> { f0: Read<'a, D2, PanicHandler>, f1: WriteExpect<'a, N1>, }
-shredh::zoo_case!(c1548, 1548, 'a, Z1548_0<'a>);
-shredh::zoo_case!(c1556, 1556, 'a, (Read<'a, D17, DefaultProvider>, Write<'a, D22, DefaultProvider>, Read<'a, N23, PanicHandler>, WriteExpect<'a, N3>, Option<Read<'a, N13, PanicHandler>>, Option<Write<'a, D24>>, Read<'a, D19, Hc<D14>>, Write<'a, D14, Hc<D11>>, (), PhantomData<[u32]>, Read<'a, D5>, Write<'a, D10>, ReadExpect<'a, N15>, Write<'a, D0, PanicHandler>, Option<Read<'a, N7, PanicHandler>>, Option<WriteExpect<'a, N8>>, Read<'a, D21, Hc<D16>>, Write<'a, D16, Hc<D6>>, (), ));
-shredh::zoo_case!(c1564, 1564, 'a, (Write<'a, D16, PanicHandler>, Option<Read<'a, N10>>, Option<Write<'a, N17, PanicHandler>>, Read<'a, D8, Hc<D19>>, Write<'a, D19, Hc<D14>>, (), PhantomData<str>, Read<'a, D7, DefaultProvider>, Write<'a, D11, DefaultProvider>, ReadExpect<'a, D4>, Write<'a, N22, PanicHandler>, Option<ReadExpect<'a, N3>>, Option<WriteExpect<'a, D5>>, Read<'a, D2, Hc<D0>>, Write<'a, D0, Hc<D24>>, (), PhantomData<dyn Send>, Read<'a, D9, DefaultProvider>, Write<'a, D6, DefaultProvider>, Read<'a, D23, PanicHandler>, WriteExpect<'a, N1>, Option<Read<'a, D13, PanicHandler>>, ));
-shredh::zoo_case!(c1572, 1572, 'a, (Option<Write<'a, D5, PanicHandler>>, Read<'a, D4, Hc<D3>>, Write<'a, D3, Hc<D2>>, (), PhantomData<[u32]>, ));
-shredh::zoo_case!(c1580, 1580, 'a, (Option<Write<'a, D3, PanicHandler>>, ));
-#[derive(SystemData)] pub struct Z1588_0<'a, T0: Debug + Resource + for<'b> Hrtb<'b>>(pub Write<'a, T0, Hc<D2>>, pub (), pub PhantomData<[u32]>);
-shredh::zoo_case!(c1588, 1588, 'a, Z1588_0<'a, D0>);
-#[derive(SystemData)] pub struct Z1596_1<'a> { pub f0: PhantomData<[u32]>, pub f1: Write<'a, D3, DefaultProvider>, pub f2: Read<'a, D3>, }
-#[derive(SystemData)] pub struct Z1596_2<'a, 'x>(Option<Read<'a, D3, PanicHandler>>, Read<'a, D3, DefaultProvider>, PhantomData<&'x i64>);
-#[derive(SystemData)] pub struct Z1596_0<'a, U0: SystemData<'a>> { f0: Z1596_1<'a>, f1: Z1596_2<'a, 'a>, f2: (Read<'a, D2, PanicHandler>, Read<'a, D3, Hc<D1>>, ReadExpect<'a, D3>, Option<ReadExpect<'a, D1>>, ), f3: U0, }
-shredh::zoo_case!(c1596, 1596, 'a, Z1596_0<'a, (Read<'a, D2>, Option<Write<'a, D2, PanicHandler>>, Option<Read<'a, D3>>, PhantomData<D0>, )>);
-#[derive(SystemData)] pub struct Z1604_1<'a, U0: SystemData<'a>, U1: SystemData<'a>> { f0: Option<Read<'a, D0, PanicHandler>>, f1: U0, f2: (), f3: U1, }
-#[derive(SystemData)] pub struct Z1604_0<'a> { f0: (Read<'a, D0, DefaultProvider>, (), Read<'a, D0>, Z1604_1<'a, Option<Read<'a, N2>>, Option<Read<'a, N2, PanicHandler>>>, ), }
-shredh::zoo_case!(c1604, 1604, 'a, Z1604_0<'a>);
-#[derive(SystemData)] pub struct Z1612_2<'a>(pub Read<'a, D0, Hc<D1>>, pub Read<'a, D3, Hc<D2>>, pub Option<WriteExpect<'a, D3>>);
-#[derive(SystemData)] pub struct Z1612_1<'a>(Z1612_2<'a>, Write<'a, D0>, Read<'a, D2>);
-#[derive(SystemData)] pub struct Z1612_0<'a> { pub f0: Read<'a, D3, PanicHandler>, pub f1: Z1612_1<'a>, }
-shredh::zoo_case!(c1612, 1612, 'a, Z1612_0<'a>);
-#[derive(SystemData)] pub struct Z1620_1<'a, T0> where T0: Resource { f0: Read<'a, T0, Hc<D2>>, }
-#[derive(SystemData)] pub struct Z1620_2<'a> { pub f0: ReadExpect<'a, D1>, }
-#[derive(SystemData)] pub struct Z1620_0<'a, T0: Resource>(pub Z1620_1<'a, D0>, pub (Write<'a, D2>, Write<'a, D2, Hc<D0>>, Option<ReadExpect<'a, D2>>, ), pub Z1620_2<'a>, pub Write<'a, T0>);
-#[derive(SystemData)] pub struct Z1620_3<'a>((Option<ReadExpect<'a, D2>>, ), (Option<ReadExpect<'a, D1>>, (), ), (Write<'a, D1, Hc<D2>>, (), (), Read<'a, D1>, ), (ReadExpect<'a, D1>, Write<'a, D0, Hc<D2>>, (), ));
-#[derive(SystemData)] pub struct Z1620_5<'a, T0, T1>(Option<Write<'a, T0>>, Read<'a, T1, Hc<D2>>) where T0: Debug + Resource, T1: Debug + Resource + for<'b> Hrtb<'b>;
-#[derive(SystemData)] pub struct Z1620_4<'a> { f0: ((), ), f1: Z1620_5<'a, D0, D1>, f2: Option<Read<'a, D1, PanicHandler>>, }
-shredh::zoo_case!(c1620, 1620, 'a, (Z1620_0<'a, D1>, Z1620_3<'a>, Option<WriteExpect<'a, D2>>, Z1620_4<'a>, ));
-#[derive(SystemData)] pub struct Z1628_0<'a>((Option<Write<'a, N1>>, Option<Write<'a, N1>>, ));
-shredh::zoo_case!(c1628, 1628, 'a, Z1628_0<'a>);
-#[derive(SystemData)] pub struct Z1636_1<'a, T0: Resource + ZRes, T1: Resource + Default> { f0: Read<'a, T0>, f1: Read<'a, T1>, f2: Write<'a, D0>, }
-#[derive(SystemData)] pub struct Z1636_2<'a, U0: SystemData<'a>>(U0, Read<'a, D1, PanicHandler>);
-#[derive(SystemData)] pub struct Z1636_3<'a> { f0: Read<'a, D0, PanicHandler>, f1: ReadExpect<'a, D0>, f2: ReadExpect<'a, D1>, f3: PhantomData<&'a u8>, }
-#[derive(SystemData)] pub struct Z1636_0<'a> { f0: (Z1636_1<'a, D2, D2>, Z1636_2<'a, Read<'a, D0>>, Z1636_3<'a>, (Read<'a, D2, Hc<D0>>, ), ), }
-shredh::zoo_case!(c1636, 1636, 'a, Z1636_0<'a>);
-#[derive(SystemData)] pub struct Z1644_0<'a>((), (Option<ReadExpect<'a, D3>>, (), ), (Read<'a, N2, PanicHandler>, ), PhantomData<str>);
-#[derive(SystemData)] pub struct Z1644_1<'a, U0: SystemData<'a>, U1: SystemData<'a>>(U0, Read<'a, D1, DefaultProvider>, Option<Read<'a, D1, PanicHandler>>, U1);
-shredh::zoo_case!(c1644, 1644, 'a, (Z1644_0<'a>, Option<Write<'a, D3, PanicHandler>>, ReadExpect<'a, D1>, (Write<'a, D3>, Z1644_1<'a, Option<Read<'a, N2, PanicHandler>>, Option<WriteExpect<'a, N2>>>, (), (Option<Read<'a, D1, PanicHandler>>, ), ), ));
-#[derive(SystemData)] pub struct Z1652_2<'a, U0>(U0, Option<Read<'a, D3, PanicHandler>>) where U0: SystemData<'a>;
-#[derive(SystemData)] pub struct Z1652_1<'a>(pub PhantomData<D0>, pub (Read<'a, D2, DefaultProvider>, Read<'a, D2>, ), pub Z1652_2<'a, Read<'a, D1, DefaultProvider>>);
-#[derive(SystemData)] pub struct Z1652_0<'a> { pub f0: Z1652_1<'a>, pub f1: Option<Read<'a, D1, PanicHandler>>, }
-shredh::zoo_case!(c1652, 1652, 'a, Z1652_0<'a>);
-#[derive(SystemData)] pub struct Z1660_0<'a> { f0: (Option<Write<'a, D1, PanicHandler>>, Option<Write<'a, D3>>, Write<'a, D3>, Option<Write<'a, D3>>, ), f1: (WriteExpect<'a, D1>, ), }
-shredh::zoo_case!(c1660, 1660, 'a, Z1660_0<'a>);
-#[derive(SystemData)] pub struct Z1668_1<'a, T0> where T0: Resource + ZRes { f0: Read<'a, D3, Hc<D0>>, f1: WriteExpect<'a, D3>, f2: (), f3: Read<'a, T0, Hc<D0>>, }
-#[derive(SystemData)] pub struct Z1668_0<'a, T0: Resource + ZRes, T1: Resource> { f0: Z1668_1<'a, D3>, f1: Write<'a, T0, Hc<D0>>, f2: Read<'a, T1, Hc<D3>>, }
-shredh::zoo_case!(c1668, 1668, 'a, (Z1668_0<'a, D3, D0>, ));
-#[derive(SystemData)] pub struct Z1676_2<'a, T0: Resource>(Option<ReadExpect<'a, T0>>);
-#[derive(SystemData)] pub struct Z1676_1<'a>(pub Read<'a, D1, Hc<D0>>, pub (ReadExpect<'a, D0>, ReadExpect<'a, D0>, Option<Read<'a, D0>>, ), pub Z1676_2<'a, D0>);
-#[derive(SystemData)] pub struct Z1676_3<'a, U0: SystemData<'a>> { pub f0: U0, pub f1: Option<Write<'a, D0, PanicHandler>>, pub f2: Read<'a, D0, Hc<D1>>, }
-#[derive(SystemData)] pub struct Z1676_4<'a, T0: Debug + Resource + for<'b> Hrtb<'b>, T1: Resource + Default>(pub (), pub Option<Write<'a, T0>>, pub Read<'a, T1>, pub ());
-#[derive(SystemData)] pub struct Z1676_6<'a, T0: Debug + Resource + Default> { pub f0: Read<'a, T0, DefaultProvider>, }
-#[derive(SystemData)] pub struct Z1676_5<'a> { f0: Z1676_6<'a, D0>, }
-#[derive(SystemData)] pub struct Z1676_0<'a, U0: SystemData<'a>>(pub U0, pub (Z1676_3<'a, Option<Write<'a, D3, PanicHandler>>>, Z1676_4<'a, D3, D1>, (Option<Read<'a, D0>>, ), Write<'a, D3, DefaultProvider>, ), pub ((), (), ), pub Z1676_5<'a>);
-shredh::zoo_case!(c1676, 1676, 'a, Z1676_0<'a, Z1676_1<'a>>);
-#[derive(SystemData)] pub struct Z1684_1<'a, U0, U1, U2>(pub U0, pub U1, pub U2, pub Option<Write<'a, D1>>) where U0: SystemData<'a>, U1: SystemData<'a>, U2: SystemData<'a>;
-#[derive(SystemData)] pub struct Z1684_0<'a> { pub f0: ((), Write<'a, D1, DefaultProvider>, Read<'a, N0, PanicHandler>, ), pub f1: (Option<Read<'a, N0, PanicHandler>>, ), pub f2: Z1684_1<'a, Read<'a, D1, PanicHandler>, Option<Read<'a, N0>>, ()>, pub f3: Option<WriteExpect<'a, N0>>, }
-#[derive(SystemData)] pub struct Z1684_2<'a, 'x, T0> where T0: Resource + ZRes { pub f0: PhantomData<&'x i64>, pub f1: PhantomData<str>, pub f2: Option<Write<'a, T0, PanicHandler>>, }
-shredh::zoo_case!(c1684, 1684, 'a, (Write<'a, D1, PanicHandler>, Z1684_0<'a>, Option<Read<'a, N0>>, (Z1684_2<'a, 'a, N0>, Read<'a, D1, PanicHandler>, ), ));
-#[derive(SystemData)] pub struct Z1692_1<'a>((Read<'a, D1>, Read<'a, D1, DefaultProvider>, ), (Option<WriteExpect<'a, D1>>, ), Write<'a, D1, DefaultProvider>, Read<'a, D0, PanicHandler>);
-#[derive(SystemData)] pub struct Z1692_3<'a, U0> where U0: SystemData<'a> { pub f0: U0, pub f1: Write<'a, D1, PanicHandler>, pub f2: PhantomData<(Write<'a, D1>,)>, }
-#[derive(SystemData)] pub struct Z1692_4<'a> { f0: Option<Read<'a, D0>>, f1: Write<'a, D0, Hc<D1>>, f2: Write<'a, D1, PanicHandler>, f3: (), }
-#[derive(SystemData)] pub struct Z1692_2<'a> { pub f0: Z1692_3<'a, Read<'a, D0, DefaultProvider>>, pub f1: Option<WriteExpect<'a, D1>>, pub f2: Z1692_4<'a>, }
-#[derive(SystemData)] pub struct Z1692_6<'a, T0: Debug + Resource + for<'b> Hrtb<'b>, T1: Resource + ZRes, T2: Debug + Resource> { f0: Read<'a, T0, PanicHandler>, f1: Read<'a, T1, DefaultProvider>, f2: Write<'a, T2, PanicHandler>, f3: PhantomData<fn() -> N2>, }
-#[derive(SystemData)] pub struct Z1692_7<'a, T0: Debug + Resource, T1: Resource + ZRes, T2: Debug + Resource> { f0: ReadExpect<'a, T0>, f1: Write<'a, T1, PanicHandler>, f2: Read<'a, T2, Hc<D0>>, f3: WriteExpect<'a, D1>, }
-#[derive(SystemData)] pub struct Z1692_5<'a, U0, U1> where U0: SystemData<'a>, U1: SystemData<'a> { f0: U0, f1: Z1692_7<'a, D1, D0, D1>, f2: U1, f3: (Option<Read<'a, D1, PanicHandler>>, ), }
-#[derive(SystemData)] pub struct Z1692_0<'a, U0, U1, U2: SystemData<'a>>(pub Z1692_1<'a>, pub U0, pub U1, pub U2) where U0: SystemData<'a>, U1: SystemData<'a>;
-shredh::zoo_case!(c1692, 1692, 'a, Z1692_0<'a, Z1692_2<'a>, Z1692_5<'a, Z1692_6<'a, D1, D0, D0>, Write<'a, D1, Hc<D0>>>, Read<'a, D0, PanicHandler>>);
-#[derive(SystemData)] pub struct Z1700_0<'a> { pub f0: (), pub f1: Read<'a, D2, DefaultProvider>, pub f2: Option<ReadExpect<'a, D0>>, pub f3: Option<WriteExpect<'a, D4>>, }
-shredh::zoo_case!(c1700, 1700, 'a, (Read<'a, D1, Hc<D2>>, (Write<'a, D4, DefaultProvider>, ), Z1700_0<'a>, ));
-#[derive(SystemData)] pub struct Z1708_0<'a, U0: SystemData<'a>, U1: SystemData<'a>, U2>(pub U0, pub U1, pub U2, pub Read<'a, D2>) where U2: SystemData<'a>;
-shredh::zoo_case!(c1708, 1708, 'a, ((Z1708_0<'a, Option<Write<'a, D3, PanicHandler>>, Write<'a, D1>, Read<'a, D1, Hc<D3>>>, ), Write<'a, D1, Hc<D3>>, WriteExpect<'a, D1>, ));
-#[derive(SystemData)] pub struct Z1716_1<'a> { f0: Option<Write<'a, D3, PanicHandler>>, }
-#[derive(SystemData)] pub struct Z1716_2<'a>(pub (Read<'a, D2, Hc<D1>>, ReadExpect<'a, D3>, ), pub (Read<'a, D2, PanicHandler>, Option<Read<'a, D1>>, Write<'a, D3, Hc<D2>>, (), ));
-#[derive(SystemData)] pub struct Z1716_0<'a>(Z1716_1<'a>, Z1716_2<'a>);
-shredh::zoo_case!(c1716, 1716, 'a, Z1716_0<'a>);
-#[derive(SystemData)] pub struct Z1724_0<'a, U0>(pub U0, pub Option<Read<'a, N3, PanicHandler>>, pub Option<ReadExpect<'a, D0>>) where U0: SystemData<'a>;
-shredh::zoo_case!(c1724, 1724, 'a, (Z1724_0<'a, Read<'a, D1, DefaultProvider>>, ));
-#[derive(SystemData)] pub struct Z1732_0<'a, T0: Debug + Resource + for<'b> Hrtb<'b>, T1: Debug + Resource + for<'b> Hrtb<'b>>(pub Write<'a, T0, Hc<D2>>, pub Read<'a, T1, Hc<D0>>, pub Option<Write<'a, D0, PanicHandler>>);
-shredh::zoo_case!(c1732, 1732, 'a, (Read<'a, D3, PanicHandler>, (Z1732_0<'a, D0, D3>, ), (Write<'a, D3, DefaultProvider>, Read<'a, D3, Hc<D2>>, ), Option<WriteExpect<'a, D0>>, ));
-#[derive(SystemData)] pub struct Z1740_1<'a> { f0: PhantomData<&'a u8>, }
-#[derive(SystemData)] pub struct Z1740_0<'a, U0> where U0: SystemData<'a> { pub f0: Z1740_1<'a>, pub f1: U0, }
-shredh::zoo_case!(c1740, 1740, 'a, (Z1740_0<'a, (Write<'a, D4, Hc<D2>>, Write<'a, D4, Hc<D1>>, )>, Option<WriteExpect<'a, D3>>, (Option<WriteExpect<'a, D1>>, ), Write<'a, D1, Hc<D3>>, ));
-#[derive(SystemData)] pub struct Z1748_1<'a>((Option<ReadExpect<'a, D2>>, ReadExpect<'a, D3>, Write<'a, D2, Hc<D3>>, Read<'a, D2, Hc<D3>>, ), PhantomData<dyn Send>, Write<'a, D3>);
-#[derive(SystemData)] pub struct Z1748_2<'a, U0, U1>(pub U0, pub (Option<Write<'a, D3>>, Read<'a, D0, Hc<D2>>, ), pub PhantomData<fn() -> N2>, pub U1) where U0: SystemData<'a>, U1: SystemData<'a>;
-#[derive(SystemData)] pub struct Z1748_0<'a> { pub f0: Z1748_1<'a>, pub f1: Z1748_2<'a, (WriteExpect<'a, D3>, Option<Read<'a, D3, PanicHandler>>, ), ((), PhantomData<fn() -> N2>, Option<Write<'a, D3, PanicHandler>>, Write<'a, D2, DefaultProvider>, )>, pub f2: (), }
-shredh::zoo_case!(c1748, 1748, 'a, Z1748_0<'a>);
-#[derive(SystemData)] pub struct Z1756_1<'a>((Read<'a, D3, PanicHandler>, ), Option<Read<'a, D3>>, ());
-#[derive(SystemData)] pub struct Z1756_0<'a, 'x>(PhantomData<&'x i64>, Z1756_1<'a>, Option<Write<'a, D3>>, Read<'a, D3, Hc<D1>>);
-shredh::zoo_case!(c1756, 1756, 'a, Z1756_0<'a, 'a>);
-#[derive(SystemData)] pub struct Z1764_1<'a, U0> where U0: SystemData<'a> { f0: Option<WriteExpect<'a, N1>>, f1: U0, }
-#[derive(SystemData)] pub struct Z1764_0<'a>((Z1764_1<'a, Read<'a, D3>>, ));
-shredh::zoo_case!(c1764, 1764, 'a, Z1764_0<'a>);
-#[derive(SystemData)] pub struct Z1772_1<'a>(pub Option<WriteExpect<'a, D0>>, pub Write<'a, D0>, pub Write<'a, D2, PanicHandler>);
-#[derive(SystemData)] pub struct Z1772_2<'a, T0>(pub Read<'a, D0>, pub Read<'a, T0>) where T0: Debug + Resource;
-#[derive(SystemData)] pub struct Z1772_3<'a>(PhantomData<&'a u8>, Option<Read<'a, D0, PanicHandler>>);
-#[derive(SystemData)] pub struct Z1772_0<'a, U0> where U0: SystemData<'a> { pub f0: U0, pub f1: (Write<'a, D0, Hc<D2>>, Read<'a, D2, Hc<D0>>, ReadExpect<'a, D0>, ), pub f2: Z1772_2<'a, D0>, pub f3: Z1772_3<'a>, }
-shredh::zoo_case!(c1772, 1772, 'a, Z1772_0<'a, Z1772_1<'a>>);
-#[derive(SystemData)] pub struct Z1780_0<'a> { pub f0: (Option<Read<'a, D4>>, Read<'a, D4>, ), }
-shredh::zoo_case!(c1780, 1780, 'a, Z1780_0<'a>);
-#[derive(SystemData)] pub struct Z1788_1<'a>(Write<'a, D3, DefaultProvider>, Option<Read<'a, D1>>, Option<Read<'a, D2, PanicHandler>>, Write<'a, D4, Hc<D3>>);
-#[derive(SystemData)] pub struct Z1788_0<'a> { pub f0: (((), Read<'a, D3, Hc<D1>>, Option<ReadExpect<'a, D3>>, Option<Write<'a, D1>>, ), Z1788_1<'a>, Read<'a, D1, PanicHandler>, Read<'a, D1, Hc<D3>>, ), pub f1: Option<Read<'a, D2>>, }
-shredh::zoo_case!(c1788, 1788, 'a, Z1788_0<'a>);
-#[derive(SystemData)] pub struct Z1796_0<'a, T0>(pub Read<'a, T0>, pub ReadExpect<'a, D0>, pub Option<Write<'a, D0, PanicHandler>>, pub PhantomData<fn() -> N2>) where T0: Debug + Resource + for<'b> Hrtb<'b> + Default;
-#[derive(SystemData)] pub struct Z1796_1<'a>((Option<Write<'a, N2, PanicHandler>>, Read<'a, D1>, Read<'a, D3>, ), (Read<'a, D1, DefaultProvider>, PhantomData<[u32]>, PhantomData<[u32]>, Option<Write<'a, D1, PanicHandler>>, ));
-#[derive(SystemData)] pub struct Z1796_2<'a> { pub f0: (Write<'a, D3, DefaultProvider>, Read<'a, D0, DefaultProvider>, Read<'a, D1, Hc<D0>>, ), }
-shredh::zoo_case!(c1796, 1796, 'a, ((Z1796_0<'a, D1>, Read<'a, D1, Hc<D0>>, (PhantomData<D0>, Read<'a, D3, DefaultProvider>, Option<Read<'a, D1>>, ), Option<WriteExpect<'a, D0>>, ), Z1796_1<'a>, PhantomData<fn() -> N2>, Z1796_2<'a>, ));
-#[derive(SystemData)] pub struct Z1804_2<'a, 'x, T0, T1, T2> where T0: Resource + Default, T1: Debug + Resource, T2: Debug + Resource + Default { pub f0: PhantomData<&'x i64>, pub f1: Read<'a, T0, DefaultProvider>, pub f2: Option<Read<'a, T1>>, pub f3: Read<'a, T2>, }
-#[derive(SystemData)] pub struct Z1804_1<'a> { pub f0: Z1804_2<'a, 'static, D0, D1, D1>, pub f1: Read<'a, D1, PanicHandler>, pub f2: Option<Read<'a, D1>>, }
-#[derive(SystemData)] pub struct Z1804_4<'a>(pub Write<'a, D1>, pub Read<'a, D1, Hc<D0>>, pub ReadExpect<'a, D0>, pub Option<Read<'a, D0>>);
-#[derive(SystemData)] pub struct Z1804_5<'a> { pub f0: Read<'a, D0, Hc<D1>>, }
-#[derive(SystemData)] pub struct Z1804_3<'a, U0>(U0, Z1804_5<'a>) where U0: SystemData<'a>;
-#[derive(SystemData)] pub struct Z1804_6<'a, T0: Debug + Resource> { pub f0: Read<'a, T0, Hc<D1>>, }
-#[derive(SystemData)] pub struct Z1804_7<'a>(ReadExpect<'a, D0>, Read<'a, D1, DefaultProvider>, Option<Write<'a, D0>>);
-#[derive(SystemData)] pub struct Z1804_0<'a>(Z1804_1<'a>, Z1804_3<'a, Z1804_4<'a>>, (Z1804_6<'a, D0>, Read<'a, D1, Hc<D0>>, (Read<'a, D1, DefaultProvider>, ), Z1804_7<'a>, ));
-shredh::zoo_case!(c1804, 1804, 'a, Z1804_0<'a>);
-shredh::zoo_case!(c1812, 1812, 'a, ((Write<'a, D1, Hc<D2>>, (), ), ));
-#[derive(SystemData)] pub struct Z1820_2<'a>(pub Option<WriteExpect<'a, D4>>, pub Read<'a, D2, DefaultProvider>);
-#[derive(SystemData)] pub struct Z1820_3<'a>(Read<'a, D4, DefaultProvider>, PhantomData<dyn Send>, PhantomData<(Write<'a, D1>,)>);
-#[derive(SystemData)] pub struct Z1820_4<'a, U0: SystemData<'a>>(pub (), pub Write<'a, D2>, pub U0);
-#[derive(SystemData)] pub struct Z1820_1<'a>(Z1820_2<'a>, (Option<Read<'a, D4, PanicHandler>>, Read<'a, D3>, PhantomData<(Write<'a, D1>,)>, (), ), Z1820_3<'a>, Z1820_4<'a, ()>);
-#[derive(SystemData)] pub struct Z1820_5<'a> { f0: (Read<'a, D1>, Option<Write<'a, D2, PanicHandler>>, Option<ReadExpect<'a, D3>>, ), f1: Option<Write<'a, D2>>, }
-#[derive(SystemData)] pub struct Z1820_7<'a, T0: Resource + ZRes, T1: Debug + Resource> { pub f0: Read<'a, T0, Hc<D1>>, pub f1: Read<'a, T1, Hc<D1>>, pub f2: (), }
-#[derive(SystemData)] pub struct Z1820_8<'a, T0: Debug + Resource, U0: SystemData<'a>, U1: SystemData<'a>, U2: SystemData<'a>>(Option<Read<'a, T0>>, U0, U1, U2);
-#[derive(SystemData)] pub struct Z1820_6<'a, 'x> { pub f0: PhantomData<&'x i64>, pub f1: Z1820_7<'a, D2, D3>, pub f2: PhantomData<D0>, pub f3: Z1820_8<'a, D4, PhantomData<&'a u8>, PhantomData<[u32]>, Option<Read<'a, D4>>>, }
-#[derive(SystemData)] pub struct Z1820_0<'a> { pub f0: Read<'a, D4, DefaultProvider>, pub f1: Z1820_1<'a>, pub f2: Z1820_5<'a>, pub f3: Z1820_6<'a, 'static>, }
-shredh::zoo_case!(c1820, 1820, 'a, Z1820_0<'a>);
-#[derive(SystemData)] pub struct Z1828_1<'a>(Read<'a, D3, PanicHandler>, PhantomData<str>);
-#[derive(SystemData)] pub struct Z1828_0<'a>(Z1828_1<'a>, Write<'a, N2, PanicHandler>, (WriteExpect<'a, D1>, ), Read<'a, D1, Hc<D3>>);
-shredh::zoo_case!(c1828, 1828, 'a, Z1828_0<'a>);
-#[derive(SystemData)] pub struct Z1836_1<'a, T0: Debug + Resource + Default, U0: SystemData<'a>>(Write<'a, T0, DefaultProvider>, U0);
-#[derive(SystemData)] pub struct Z1836_2<'a> { f0: PhantomData<&'a u8>, f1: Read<'a, D2, Hc<D1>>, }
-#[derive(SystemData)] pub struct Z1836_3<'a> { f0: Read<'a, D2>, f1: Read<'a, D1, Hc<D2>>, }
-#[derive(SystemData)] pub struct Z1836_0<'a, U0: SystemData<'a>, U1: SystemData<'a>> { pub f0: U0, pub f1: U1, pub f2: Read<'a, D2, PanicHandler>, pub f3: Z1836_3<'a>, }
-#[derive(SystemData)] pub struct Z1836_4<'a>(pub Option<ReadExpect<'a, D1>>);
-shredh::zoo_case!(c1836, 1836, 'a, (Z1836_0<'a, Z1836_1<'a, D2, PhantomData<D0>>, Z1836_2<'a>>, Z1836_4<'a>, ));
-#[derive(SystemData)] pub struct Z1844_1<'a> { f0: Option<Read<'a, D0>>, f1: (), }
-#[derive(SystemData)] pub struct Z1844_2<'a> { f0: Read<'a, D1, DefaultProvider>, }
-#[derive(SystemData)] pub struct Z1844_0<'a, U0: SystemData<'a>>(pub ((Option<Read<'a, D3, PanicHandler>>, ), Read<'a, D2>, Z1844_1<'a>, Z1844_2<'a>, ), pub U0);
-shredh::zoo_case!(c1844, 1844, 'a, Z1844_0<'a, Write<'a, D1, Hc<D3>>>);
-#[derive(SystemData)] pub struct Z1852_1<'a> { pub f0: Read<'a, D1, DefaultProvider>, pub f1: Read<'a, N0, PanicHandler>, pub f2: ReadExpect<'a, D1>, }
-#[derive(SystemData)] pub struct Z1852_0<'a, U0>(pub Write<'a, D1, DefaultProvider>, pub Option<ReadExpect<'a, N0>>, pub (Option<Read<'a, D1, PanicHandler>>, Read<'a, D1, PanicHandler>, ), pub U0) where U0: SystemData<'a>;
-shredh::zoo_case!(c1852, 1852, 'a, Z1852_0<'a, Z1852_1<'a>>);
-#[derive(SystemData)] pub struct Z1860_0<'a>(pub ReadExpect<'a, D0>, pub ((), Write<'a, D2, Hc<D3>>, Write<'a, D2, DefaultProvider>, ), pub ((), Write<'a, D3, PanicHandler>, ));
-shredh::zoo_case!(c1860, 1860, 'a, Z1860_0<'a>);
-#[derive(SystemData)] pub struct Z1868_2<'a, T0: Resource + ZRes> { f0: Option<ReadExpect<'a, T0>>, }
-#[derive(SystemData)] pub struct Z1868_3<'a, T0: Resource + ZRes, T1: Resource + ZRes> { pub f0: (), pub f1: Write<'a, D1, DefaultProvider>, pub f2: Option<Read<'a, T0, PanicHandler>>, pub f3: ReadExpect<'a, T1>, }
-#[derive(SystemData)] pub struct Z1868_4<'a>(pub Option<ReadExpect<'a, D0>>, pub Write<'a, D0, Hc<D1>>, pub Read<'a, D0, Hc<D1>>);
-#[derive(SystemData)] pub struct Z1868_1<'a> { f0: Z1868_2<'a, D0>, f1: Z1868_3<'a, D0, D0>, f2: Z1868_4<'a>, }
-#[derive(SystemData)] pub struct Z1868_5<'a>(pub Option<Write<'a, D0>>);
-#[derive(SystemData)] pub struct Z1868_6<'a> { f0: (), f1: ReadExpect<'a, D1>, }
-#[derive(SystemData)] pub struct Z1868_0<'a> { f0: (Read<'a, D1, PanicHandler>, Write<'a, D1, Hc<D0>>, ), f1: Z1868_1<'a>, f2: (Z1868_5<'a>, Z1868_6<'a>, Option<ReadExpect<'a, D0>>, ), }
-shredh::zoo_case!(c1868, 1868, 'a, Z1868_0<'a>);
-#[derive(SystemData)] pub struct Z1876_1<'a, T0: Debug + Resource + for<'b> Hrtb<'b>, T1: Resource + Default>(pub Read<'a, T0, Hc<D3>>, pub (), pub Write<'a, T1>);
-#[derive(SystemData)] pub struct Z1876_2<'a, T0>(pub WriteExpect<'a, T0>) where T0: Debug + Resource;
-#[derive(SystemData)] pub struct Z1876_3<'a> { pub f0: Option<WriteExpect<'a, D0>>, pub f1: Write<'a, D2>, pub f2: Read<'a, D3, Hc<D2>>, }
-#[derive(SystemData)] pub struct Z1876_4<'a, T0> where T0: Debug + Resource { pub f0: Write<'a, T0, DefaultProvider>, }
-#[derive(SystemData)] pub struct Z1876_5<'a> { pub f0: WriteExpect<'a, D0>, pub f1: Write<'a, D0>, }
-#[derive(SystemData)] pub struct Z1876_0<'a, 'x> { pub f0: Z1876_1<'a, D2, D0>, pub f1: Z1876_2<'a, D2>, pub f2: Read<'a, D3, DefaultProvider>, pub f3: PhantomData<&'x i64>, pub f4: Write<'a, D2>, pub f5: Z1876_3<'a>, pub f6: Z1876_4<'a, D3>, pub f7: Option<ReadExpect<'a, D3>>, pub f8: ReadExpect<'a, D3>, pub f9: Write<'a, D2, PanicHandler>, pub f10: Z1876_5<'a>, pub f11: (), pub f12: ((), ), pub f13: (), pub f14: Read<'a, D2>, }
-shredh::zoo_case!(c1876, 1876, 'a, Z1876_0<'a, 'a>);
-shredh::zoo_case!(c1884, 1884, 'a, (Write<'a, D3>, Write<'a, D0>, PhantomData<u8>, Option<WriteExpect<'a, D4>>, Write<'a, D0, Hc<D4>>, Read<'a, D3, DefaultProvider>, Read<'a, D2, PanicHandler>, (), Write<'a, D0, DefaultProvider>, (), ));
-#[derive(SystemData)] pub struct Z1892_0<'a>(Read<'a, D6, Hc<D7>>, PhantomData<&'a u8>, Read<'a, D1, Hc<D7>>);
-#[derive(SystemData)] pub struct Z1892_1<'a, U0: SystemData<'a>> { pub f0: U0, pub f1: Option<Write<'a, D4, PanicHandler>>, }
-shredh::zoo_case!(c1892, 1892, 'a, (((), ), Option<Read<'a, D4, PanicHandler>>, Write<'a, D5, DefaultProvider>, (Option<Read<'a, D1, PanicHandler>>, Read<'a, D7, Hc<D5>>, Write<'a, D2, Hc<D5>>, ), Z1892_0<'a>, Z1892_1<'a, Write<'a, D2, Hc<D4>>>, (), PhantomData<&'a u8>, Write<'a, D1, Hc<D2>>, Write<'a, D7, Hc<D1>>, ));
-#[derive(SystemData)] pub struct Z1900_0<'a, U0, U1, U2> where U0: SystemData<'a>, U1: SystemData<'a>, U2: SystemData<'a> { f0: U0, f1: U1, f2: U2, f3: (), f4: PhantomData<dyn Send>, f5: (), f6: (), f7: ReadExpect<'a, D1>, f8: ReadExpect<'a, D0>, f9: Option<Read<'a, D0>>, f10: Option<ReadExpect<'a, D0>>, f11: Read<'a, D1, DefaultProvider>, f12: PhantomData<u8>, f13: PhantomData<u8>, f14: ReadExpect<'a, D0>, f15: Read<'a, D0>, f16: (), }
-shredh::zoo_case!(c1900, 1900, 'a, Z1900_0<'a, (), (), Option<Read<'a, D1>>>);
-shredh::zoo_case!(c1908, 1908, 'a, ((), Option<WriteExpect<'a, N21>>, Read<'a, D12, DefaultProvider>, Option<Read<'a, D19, PanicHandler>>, WriteExpect<'a, N11>, Read<'a, D7>, WriteExpect<'a, D17>, Read<'a, D25>, Option<Write<'a, N2, PanicHandler>>, PhantomData<str>, Read<'a, D3, Hc<D7>>, PhantomData<&'a u8>, Write<'a, D10>, Write<'a, D14, Hc<D4>>, Option<ReadExpect<'a, D4>>, (), Read<'a, N16, PanicHandler>, ));
-#[derive(SystemData)] pub struct Z1916_0<'a, T0: Resource + ZRes, T1: Resource, T2: Debug + Resource, U0, U1, U2: SystemData<'a>>(pub Read<'a, T0>, pub ReadExpect<'a, T1>, pub Read<'a, T2, DefaultProvider>, pub U0, pub U1, pub U2, pub ReadExpect<'a, D4>, pub PhantomData<D0>, pub Option<Read<'a, D0>>, pub (), pub (), pub Option<Read<'a, D5>>, pub PhantomData<dyn Send>, pub Option<Read<'a, N1, PanicHandler>>, pub Read<'a, D4, DefaultProvider>, pub PhantomData<fn() -> N2>, pub Option<Read<'a, N1>>, pub Option<Read<'a, N2>>, pub (), pub PhantomData<[u32]>, pub (), pub Read<'a, D5, DefaultProvider>, pub PhantomData<(Write<'a, D1>,)>, pub ReadExpect<'a, D0>) where U0: SystemData<'a>, U1: SystemData<'a>;
-shredh::zoo_case!(c1916, 1916, 'a, Z1916_0<'a, D4, N2, D0, Option<ReadExpect<'a, D0>>, (), Option<Read<'a, D0, PanicHandler>>>);
-#[derive(SystemData)] pub struct Z1924_0<'a, U0, U1, U2> where U0: SystemData<'a>, U1: SystemData<'a>, U2: SystemData<'a> { f0: U0, f1: ReadExpect<'a, D4>, f2: U1, f3: U2, f4: (), f5: (), f6: Option<Read<'a, D0, PanicHandler>>, f7: PhantomData<str>, f8: ReadExpect<'a, D4>, f9: PhantomData<u8>, f10: (), f11: ReadExpect<'a, D3>, f12: Read<'a, D4>, f13: (), f14: Option<Read<'a, N1>>, f15: Read<'a, D0>, f16: Read<'a, N5, PanicHandler>, f17: PhantomData<[u32]>, f18: PhantomData<D0>, f19: Option<ReadExpect<'a, N5>>, f20: (), f21: PhantomData<dyn Send>, f22: Option<Read<'a, D4, PanicHandler>>, f23: Read<'a, D4, PanicHandler>, f24: Option<ReadExpect<'a, N5>>, }
-shredh::zoo_case!(c1924, 1924, 'a, Z1924_0<'a, Read<'a, D3>, Option<Read<'a, D3, PanicHandler>>, Option<Read<'a, D0>>>);
-shredh::zoo_case!(c1932, 1932, 'a, (Read<'a, D2>, PhantomData<str>, Read<'a, D3, DefaultProvider>, Read<'a, N1, PanicHandler>, ReadExpect<'a, D2>, PhantomData<str>, ));
-#[derive(SystemData)] pub struct Z1940_0<'a>(pub ReadExpect<'a, D4>, pub PhantomData<D0>, pub (), pub ReadExpect<'a, D4>, pub (), pub Read<'a, D0, DefaultProvider>, pub Read<'a, D0, DefaultProvider>, pub Option<Read<'a, N3>>, pub (), pub Option<Read<'a, D2>>, pub Read<'a, D0, DefaultProvider>, pub PhantomData<dyn Send>, pub PhantomData<D0>, pub Read<'a, D4, DefaultProvider>, pub Read<'a, D4>, pub PhantomData<D0>, pub PhantomData<dyn Send>, pub PhantomData<(Write<'a, D1>,)>, pub Read<'a, D2, PanicHandler>);
-shredh::zoo_case!(c1940, 1940, 'a, Z1940_0<'a>);
-#[derive(SystemData)] pub struct Z1948_0<'a, T0, T1, T2> where T0: Resource, T1: Resource + ZRes + Default, T2: Debug + Resource + for<'b> Hrtb<'b> { pub f0: Read<'a, T0, Hc<D0>>, pub f1: (), pub f2: Write<'a, T1>, pub f3: Write<'a, T2>, pub f4: Option<Write<'a, N2, PanicHandler>>, }
-shredh::zoo_case!(c1948, 1948, 'a, Z1948_0<'a, D5, D3, D1>);
-#[derive(SystemData)] pub struct Z1956_0<'a, 'x, T0: Debug + Resource, T1: Debug + Resource, T2>(pub Write<'a, T0, Hc<D3>>, pub Write<'a, T1, Hc<D1>>, pub (), pub (), pub Write<'a, T2, Hc<D0>>, pub Write<'a, D3, DefaultProvider>, pub Write<'a, D1, PanicHandler>, pub Write<'a, D3, PanicHandler>, pub Option<WriteExpect<'a, D1>>, pub WriteExpect<'a, D0>, pub PhantomData<&'x i64>, pub Option<Read<'a, D3, PanicHandler>>, pub Option<Read<'a, D3>>, pub Write<'a, D0>, pub Option<Write<'a, D0>>, pub Read<'a, D1, Hc<D0>>, pub Read<'a, D3, Hc<D0>>, pub Write<'a, D1, PanicHandler>, pub PhantomData<fn() -> N2>, pub Read<'a, D3, PanicHandler>, pub Option<ReadExpect<'a, D0>>, pub PhantomData<T0>, pub Read<'a, D3, DefaultProvider>) where T2: Debug + Resource;
-shredh::zoo_case!(c1956, 1956, 'a, Z1956_0<'a, 'static, D1, D0, D1>);
-shredh::zoo_case!(c1964, 1964, 'a, (Option<Read<'a, D5, PanicHandler>>, Read<'a, N4, PanicHandler>, Read<'a, N4, PanicHandler>, Option<Read<'a, D0, PanicHandler>>, (), Option<ReadExpect<'a, D3>>, Read<'a, D1, DefaultProvider>, (), Read<'a, D0, DefaultProvider>, (), PhantomData<(Write<'a, D1>,)>, Read<'a, D0>, Read<'a, D1, DefaultProvider>, PhantomData<u8>, Read<'a, D3, PanicHandler>, ReadExpect<'a, D1>, Read<'a, D1, PanicHandler>, PhantomData<fn() -> N2>, PhantomData<(Write<'a, D1>,)>, (), ReadExpect<'a, D1>, PhantomData<&'a u8>, (), Read<'a, D5, DefaultProvider>, Option<ReadExpect<'a, D1>>, Read<'a, D3>, ));
-#[derive(SystemData)] pub struct Z1972_0<'a, U0, U1, U2>(pub U0, pub U1, pub U2, pub Read<'a, D13, PanicHandler>, pub WriteExpect<'a, N5>, pub PhantomData<(Write<'a, D1>,)>, pub Read<'a, D1, Hc<D12>>, pub Write<'a, D15, DefaultProvider>, pub Read<'a, D20>, pub Option<Read<'a, D7>>, pub WriteExpect<'a, N17>, pub Option<Read<'a, N11>>, pub Option<Write<'a, D19, PanicHandler>>, pub Read<'a, D0, Hc<D3>>, pub Read<'a, D18, Hc<D19>>, pub Option<WriteExpect<'a, N10>>, pub Read<'a, D12, DefaultProvider>, pub PhantomData<dyn Send>, pub ()) where U0: SystemData<'a>, U1: SystemData<'a>, U2: SystemData<'a>;
-shredh::zoo_case!(c1972, 1972, 'a, Z1972_0<'a, Write<'a, D21, Hc<D12>>, (), ()>);
-#[derive(SystemData)] pub struct Z1980_0<'a>(pub Read<'a, D1, DefaultProvider>, pub WriteExpect<'a, D1>, pub Write<'a, D3, Hc<D2>>, pub PhantomData<D0>, pub Read<'a, D3, Hc<D2>>, pub Option<Write<'a, D2, PanicHandler>>, pub PhantomData<str>, pub Write<'a, D1, DefaultProvider>, pub WriteExpect<'a, D2>, pub (), pub ());
-shredh::zoo_case!(c1980, 1980, 'a, Z1980_0<'a>);
-#[derive(SystemData)] pub struct Z1988_0<'a> { f0: PhantomData<fn() -> N2>, f1: (), f2: PhantomData<u8>, f3: (), f4: Read<'a, D3, PanicHandler>, f5: Read<'a, D3>, f6: ReadExpect<'a, D3>, f7: Read<'a, D3, PanicHandler>, }
-shredh::zoo_case!(c1988, 1988, 'a, Z1988_0<'a>);
-shredh::zoo_case!(c1996, 1996, 'a, (Read<'a, D9, PanicHandler>, PhantomData<[u32]>, (), Option<Read<'a, N24>>, Write<'a, N12, PanicHandler>, PhantomData<u8>, Read<'a, D16, DefaultProvider>, Read<'a, D11>, ));
-#[derive(SystemData)] pub struct Z2004_1<'a>(Write<'a, D3>);
-#[derive(SystemData)] pub struct Z2004_0<'a, T0, T1, T2> where T0: Debug + Resource + for<'b> Hrtb<'b>, T1: Debug + Resource + for<'b> Hrtb<'b>, T2: Resource + ZRes { pub f0: (ReadExpect<'a, D1>, ), pub f1: Write<'a, T0, PanicHandler>, pub f2: Read<'a, T1, Hc<D0>>, pub f3: Option<Read<'a, D0, PanicHandler>>, pub f4: Z2004_1<'a>, pub f5: (), pub f6: Option<ReadExpect<'a, T2>>, pub f7: Write<'a, D1>, pub f8: (Write<'a, D3, DefaultProvider>, Read<'a, D1, PanicHandler>, ), pub f9: ((), ), pub f10: Write<'a, D1, Hc<D0>>, pub f11: Write<'a, D0, PanicHandler>, }
-shredh::zoo_case!(c2004, 2004, 'a, Z2004_0<'a, D3, D1, D3>);
-shredh::zoo_case!(c2012, 2012, 'a, (Read<'a, D1, DefaultProvider>, Option<Read<'a, D1, PanicHandler>>, PhantomData<[u32]>, PhantomData<[u32]>, (), Option<Read<'a, D1, PanicHandler>>, PhantomData<(Write<'a, D1>,)>, PhantomData<[u32]>, PhantomData<fn() -> N2>, PhantomData<u8>, (), Read<'a, D1, PanicHandler>, Read<'a, N3, PanicHandler>, ReadExpect<'a, D1>, Read<'a, D1, DefaultProvider>, PhantomData<[u32]>, Option<Read<'a, N3, PanicHandler>>, (), Option<Read<'a, N3, PanicHandler>>, (), Option<Read<'a, N3, PanicHandler>>, Read<'a, N3, PanicHandler>, PhantomData<dyn Send>, ));
-#[derive(SystemData)] pub struct Z2020_0<'a, U0, U1, U2> where U0: SystemData<'a>, U1: SystemData<'a>, U2: SystemData<'a> { pub f0: PhantomData<(Write<'a, D1>,)>, pub f1: U0, pub f2: U1, pub f3: ReadExpect<'a, D1>, pub f4: Option<Read<'a, D0>>, pub f5: U2, pub f6: Read<'a, D1, PanicHandler>, pub f7: Option<Read<'a, D1, PanicHandler>>, pub f8: ReadExpect<'a, D1>, pub f9: Read<'a, D3, DefaultProvider>, pub f10: Read<'a, D1, DefaultProvider>, }
-shredh::zoo_case!(c2020, 2020, 'a, Z2020_0<'a, (), Option<Read<'a, D1>>, Option<Read<'a, D1>>>);
-shredh::zoo_case!(c2028, 2028, 'a, (ReadExpect<'a, D4>, PhantomData<&'a u8>, PhantomData<str>, Read<'a, D2>, (), PhantomData<str>, ReadExpect<'a, D1>, (), Option<Read<'a, D2>>, PhantomData<u8>, Read<'a, N0, PanicHandler>, Read<'a, D4>, PhantomData<str>, (), Option<Read<'a, D4, PanicHandler>>, PhantomData<u8>, Option<Read<'a, D3>>, Option<ReadExpect<'a, D1>>, ReadExpect<'a, D1>, PhantomData<dyn Send>, Read<'a, D3, DefaultProvider>, Read<'a, D1>, Read<'a, D3, DefaultProvider>, Read<'a, D1, PanicHandler>, (), ));
-#[derive(SystemData)] pub struct Z2036_0<'a>(Write<'a, D25, Hc<D18>>, Write<'a, D14, Hc<D19>>, Option<Read<'a, D3>>, ReadExpect<'a, N11>, (), Option<WriteExpect<'a, N9>>, (), WriteExpect<'a, D12>, Read<'a, D13, Hc<D10>>, Read<'a, D19>, Write<'a, D17>, Write<'a, D4>, Read<'a, D18, Hc<D24>>, Read<'a, D24, Hc<D25>>, Read<'a, D15, PanicHandler>, Write<'a, D16, Hc<D3>>, Read<'a, D10, Hc<D12>>);
-shredh::zoo_case!(c2036, 2036, 'a, Z2036_0<'a>);
-#[derive(SystemData)] pub struct Z2044_0<'a, T0: Resource + ZRes, T1: Debug + Resource, T2: Debug + Resource + Default>(pub PhantomData<u8>, pub ReadExpect<'a, T0>, pub Option<Write<'a, T1>>, pub (), pub Write<'a, T2, DefaultProvider>, pub Option<Read<'a, N5, PanicHandler>>, pub PhantomData<T0>, pub Write<'a, D7, DefaultProvider>, pub PhantomData<u8>, pub Write<'a, D16, PanicHandler>, pub Option<Write<'a, D1, PanicHandler>>, pub Write<'a, D6, Hc<D16>>, pub Write<'a, D24, Hc<D15>>);
-shredh::zoo_case!(c2044, 2044, 'a, Z2044_0<'a, D15, D2, D0>);
-#[derive(SystemData)] pub struct Z2052_0<'a, U0, U1, U2> where U0: SystemData<'a>, U1: SystemData<'a>, U2: SystemData<'a> { f0: Write<'a, D1, Hc<D0>>, f1: U0, f2: U1, f3: Option<WriteExpect<'a, N5>>, f4: U2, f5: Write<'a, D0, DefaultProvider>, f6: Read<'a, N4, PanicHandler>, }
-shredh::zoo_case!(c2052, 2052, 'a, Z2052_0<'a, Option<ReadExpect<'a, D3>>, Option<Write<'a, D2>>, Read<'a, D6>>);
-#[derive(SystemData)] pub struct Z2060_0<'a, T0, T1, T2>(pub Read<'a, T0>, pub Write<'a, T1, PanicHandler>, pub ReadExpect<'a, T2>, pub PhantomData<dyn Send>, pub Option<Write<'a, D4>>, pub Write<'a, D1, Hc<D18>>, pub Read<'a, D12, DefaultProvider>, pub Read<'a, D10, Hc<D1>>, pub Read<'a, D5>) where T0: Resource, T1: Resource, T2: Debug + Resource;
-shredh::zoo_case!(c2060, 2060, 'a, Z2060_0<'a, D18, D16, D15>);
-#[derive(SystemData)] pub struct Z2068_1<'a, U0: SystemData<'a>>(pub (), pub U0, pub Read<'a, D1, Hc<D2>>);
-#[derive(SystemData)] pub struct Z2068_2<'a> { pub f0: Write<'a, D2, Hc<D0>>, pub f1: Option<Read<'a, D5>>, pub f2: WriteExpect<'a, D1>, }
-#[derive(SystemData)] pub struct Z2068_3<'a>(pub Read<'a, D0>);
-#[derive(SystemData)] pub struct Z2068_4<'a, T0: Debug + Resource, T1: Debug + Resource + for<'b> Hrtb<'b>>(Write<'a, T0, DefaultProvider>, Option<Read<'a, T1, PanicHandler>>);
-#[derive(SystemData)] pub struct Z2068_0<'a, U0: SystemData<'a>, U1: SystemData<'a>, U2: SystemData<'a>, T0: Resource>(pub Z2068_1<'a, WriteExpect<'a, D2>>, pub U0, pub U1, pub Option<Write<'a, D0>>, pub U2, pub (Write<'a, D2>, Write<'a, D2, Hc<D0>>, Option<Read<'a, D3, PanicHandler>>, ), pub PhantomData<fn() -> N2>, pub Write<'a, D1, Hc<D3>>, pub Write<'a, T0, Hc<D5>>, pub PhantomData<[u32]>, pub Z2068_3<'a>, pub Write<'a, D5, Hc<D0>>, pub Z2068_4<'a, D1, D2>, pub Write<'a, D1>);
-shredh::zoo_case!(c2068, 2068, 'a, Z2068_0<'a, Option<Write<'a, D0>>, Z2068_2<'a>, Read<'a, D6>, D3>);
-#[derive(SystemData)] pub struct Z2076_0<'a, T0, T1, T2>((), Option<Read<'a, T0, PanicHandler>>, PhantomData<T0>, Option<Read<'a, D3>>, Read<'a, T1, DefaultProvider>, Read<'a, T2, PanicHandler>, PhantomData<fn() -> N2>, ReadExpect<'a, D2>, Option<Read<'a, D3>>, Read<'a, D3, PanicHandler>, (), (), Read<'a, D1, DefaultProvider>, ReadExpect<'a, D2>, (), Option<ReadExpect<'a, D1>>, Read<'a, D3, PanicHandler>, PhantomData<dyn Send>, Read<'a, D1, DefaultProvider>, Read<'a, D2>, Read<'a, D3>, Read<'a, D4>, PhantomData<(Write<'a, D1>,)>, Read<'a, D1, DefaultProvider>) where T0: Debug + Resource + for<'b> Hrtb<'b>, T1: Debug + Resource, T2: Resource;
-shredh::zoo_case!(c2076, 2076, 'a, Z2076_0<'a, D4, D2, D3>);
-#[derive(SystemData)] pub struct Z2084_0<'a, U0, U1, U2> where U0: SystemData<'a>, U1: SystemData<'a>, U2: SystemData<'a> { f0: Option<Read<'a, N15, PanicHandler>>, f1: (), f2: U0, f3: Read<'a, D12, Hc<D11>>, f4: U1, f5: U2, f6: Read<'a, D3, Hc<D14>>, f7: Write<'a, D4>, f8: Option<Read<'a, D9>>, f9: Write<'a, D11, DefaultProvider>, f10: Option<ReadExpect<'a, N23>>, f11: Option<Read<'a, D20>>, f12: Write<'a, D14, Hc<D12>>, f13: ReadExpect<'a, N21>, }
-shredh::zoo_case!(c2084, 2084, 'a, Z2084_0<'a, Option<Read<'a, N10, PanicHandler>>, PhantomData<dyn Send>, Option<Write<'a, D25>>>);
-#[derive(SystemData)] pub struct Z2092_0<'a> { f0: Option<ReadExpect<'a, D0>>, }
-shredh::zoo_case!(c2092, 2092, 'a, ((), ReadExpect<'a, D5>, Read<'a, D6>, Read<'a, D3, PanicHandler>, (PhantomData<&'a u8>, PhantomData<str>, ), Read<'a, D6>, (Write<'a, D0, PanicHandler>, (), ), (Option<Write<'a, D5, PanicHandler>>, PhantomData<(Write<'a, D1>,)>, Read<'a, D5, PanicHandler>, ), Read<'a, D6>, (), Z2092_0<'a>, ));
-pub static CASES: &[&shredh::zoo::Ops] = &[
-    &c4::OPS,
-    &c12::OPS,
-    &c20::OPS,
-    &c28::OPS,
-    &c36::OPS,
-    &c44::OPS,
-    &c52::OPS,
-    &c60::OPS,
-    &c68::OPS,
-    &c76::OPS,
-    &c84::OPS,
-    &c92::OPS,
-    &c100::OPS,
-    &c108::OPS,
-    &c116::OPS,
-    &c124::OPS,
-    &c132::OPS,
-    &c140::OPS,
-    &c148::OPS,
-    &c156::OPS,
-    &c164::OPS,
-    &c172::OPS,
-    &c180::OPS,
-    &c188::OPS,
-    &c196::OPS,
-    &c204::OPS,
-    &c212::OPS,
-    &c220::OPS,
-    &c228::OPS,
-    &c236::OPS,
-    &c244::OPS,
-    &c252::OPS,
-    &c260::OPS,
-    &c268::OPS,
-    &c276::OPS,
-    &c284::OPS,
-    &c292::OPS,
-    &c300::OPS,
-    &c308::OPS,
-    &c316::OPS,
-    &c324::OPS,
-    &c332::OPS,
-    &c340::OPS,
-    &c348::OPS,
-    &c356::OPS,
-    &c364::OPS,
-    &c372::OPS,
-    &c380::OPS,
-    &c388::OPS,
-    &c396::OPS,
-    &c404::OPS,
-    &c412::OPS,
-    &c420::OPS,
-    &c428::OPS,
-    &c436::OPS,
-    &c444::OPS,
-    &c452::OPS,
-    &c460::OPS,
-    &c468::OPS,
-    &c476::OPS,
-    &c484::OPS,
-    &c492::OPS,
-    &c500::OPS,
-    &c508::OPS,
-    &c516::OPS,
-    &c524::OPS,
-    &c532::OPS,
-    &c540::OPS,
-    &c548::OPS,
-    &c556::OPS,
-    &c564::OPS,
-    &c572::OPS,
-    &c580::OPS,
-    &c588::OPS,
-    &c596::OPS,
-    &c604::OPS,
-    &c612::OPS,
-    &c620::OPS,
-    &c628::OPS,
-    &c636::OPS,
-    &c644::OPS,
-    &c652::OPS,
-    &c660::OPS,
-    &c668::OPS,
-    &c676::OPS,
-    &c684::OPS,
-    &c692::OPS,
-    &c700::OPS,
-    &c708::OPS,
-    &c716::OPS,
-    &c724::OPS,
-    &c732::OPS,
-    &c740::OPS,
-    &c748::OPS,
-    &c756::OPS,
-    &c764::OPS,
-    &c772::OPS,
-    &c780::OPS,
-    &c788::OPS,
-    &c796::OPS,
-    &c804::OPS,
-    &c812::OPS,
-    &c820::OPS,
-    &c828::OPS,
-    &c836::OPS,
-    &c844::OPS,
-    &c852::OPS,
-    &c860::OPS,
-    &c868::OPS,
-    &c876::OPS,
-    &c884::OPS,
-    &c892::OPS,
-    &c900::OPS,
-    &c908::OPS,
-    &c916::OPS,
-    &c924::OPS,
-    &c932::OPS,
-    &c940::OPS,
-    &c948::OPS,
-    &c956::OPS,
-    &c964::OPS,
-    &c972::OPS,
-    &c980::OPS,
-    &c988::OPS,
-    &c996::OPS,
-    &c1004::OPS,
-    &c1012::OPS,
-    &c1020::OPS,
-    &c1028::OPS,
-    &c1036::OPS,
-    &c1044::OPS,
-    &c1052::OPS,
-    &c1060::OPS,
-    &c1068::OPS,
-    &c1076::OPS,
-    &c1084::OPS,
-    &c1092::OPS,
-    &c1100::OPS,
-    &c1108::OPS,
-    &c1116::OPS,
-    &c1124::OPS,
-    &c1132::OPS,
-    &c1140::OPS,
-    &c1148::OPS,
-    &c1156::OPS,
-    &c1164::OPS,
-    &c1172::OPS,
-    &c1180::OPS,
-    &c1188::OPS,
-    &c1196::OPS,
-    &c1204::OPS,
-    &c1212::OPS,
-    &c1220::OPS,
-    &c1228::OPS,
-    &c1236::OPS,
-    &c1244::OPS,
-    &c1252::OPS,
-    &c1260::OPS,
-    &c1268::OPS,
-    &c1276::OPS,
-    &c1284::OPS,
-    &c1292::OPS,
-    &c1300::OPS,
-    &c1308::OPS,
-    &c1316::OPS,
-    &c1324::OPS,
-    &c1332::OPS,
-    &c1340::OPS,
-    &c1348::OPS,
-    &c1356::OPS,
-    &c1364::OPS,
-    &c1372::OPS,
-    &c1380::OPS,
-    &c1388::OPS,
-    &c1396::OPS,
-    &c1404::OPS,
-    &c1412::OPS,
-    &c1420::OPS,
-    &c1428::OPS,
-    &c1436::OPS,
-    &c1444::OPS,
-    &c1452::OPS,
-    &c1460::OPS,
-    &c1468::OPS,
-    &c1476::OPS,
-    &c1484::OPS,
-    &c1492::OPS,
-    &c1500::OPS,
-    &c1508::OPS,
-    &c1516::OPS,
-    &c1524::OPS,
-    &c1532::OPS,
-    &c1540::OPS,
-    &c1548::OPS,
-    &c1556::OPS,
-    &c1564::OPS,
-    &c1572::OPS,
-    &c1580::OPS,
-    &c1588::OPS,
-    &c1596::OPS,
-    &c1604::OPS,
-    &c1612::OPS,
-    &c1620::OPS,
-    &c1628::OPS,
-    &c1636::OPS,
-    &c1644::OPS,
-    &c1652::OPS,
-    &c1660::OPS,
-    &c1668::OPS,
-    &c1676::OPS,
-    &c1684::OPS,
-    &c1692::OPS,
-    &c1700::OPS,
-    &c1708::OPS,
-    &c1716::OPS,
-    &c1724::OPS,
-    &c1732::OPS,
-    &c1740::OPS,
-    &c1748::OPS,
-    &c1756::OPS,
-    &c1764::OPS,
-    &c1772::OPS,
-    &c1780::OPS,
-    &c1788::OPS,
-    &c1796::OPS,
-    &c1804::OPS,
-    &c1812::OPS,
-    &c1820::OPS,
-    &c1828::OPS,
-    &c1836::OPS,
-    &c1844::OPS,
-    &c1852::OPS,
-    &c1860::OPS,
-    &c1868::OPS,
-    &c1876::OPS,
-    &c1884::OPS,
-    &c1892::OPS,
-    &c1900::OPS,
-    &c1908::OPS,
-    &c1916::OPS,
-    &c1924::OPS,
-    &c1932::OPS,
-    &c1940::OPS,
-    &c1948::OPS,
-    &c1956::OPS,
-    &c1964::OPS,
-    &c1972::OPS,
-    &c1980::OPS,
-    &c1988::OPS,
-    &c1996::OPS,
-    &c2004::OPS,
-    &c2012::OPS,
-    &c2020::OPS,
-    &c2028::OPS,
-    &c2036::OPS,
-    &c2044::OPS,
-    &c2052::OPS,
-    &c2060::OPS,
-    &c2068::OPS,
-    &c2076::OPS,
-    &c2084::OPS,
-    &c2092::OPS,
-];
+// placeholder written by harness/gen/zoo.py (the real file is a build artefact of bin/check C06)
+pub const GEN_HASH: &str = "placeholder";
+pub static CASES: &[&shredh::zoo::Ops] = &[];
